@@ -7,29 +7,6 @@ Local Open Scope string_scope.
 Local Open Scope list_scope.
 
 (* ---------------------------------------------------------------- generic list / monad lemmas *)
-Lemma map_mapi_from {A B C} (f : B -> C) (g : nat -> A -> B) n l :
-  map f (mapi_from g n l) = mapi_from (fun i x => f (g i x)) n l.
-Proof. revert n. induction l as [|x r IH]; intros n; simpl; [reflexivity|]. rewrite IH. reflexivity. Qed.
-
-Lemma mapi_from_id {A} (g : nat -> A -> A) n l : (forall i x, g i x = x) -> mapi_from g n l = l.
-Proof. intros H. revert n. induction l as [|x r IH]; intros n; simpl; [reflexivity|]. rewrite H, IH. reflexivity. Qed.
-
-Lemma mapi_from_ext {A B} (f g : nat -> A -> B) n l : (forall i x, f i x = g i x) -> mapi_from f n l = mapi_from g n l.
-Proof. intros H. revert n. induction l as [|x r IH]; intros n; simpl; [reflexivity|]. rewrite H, IH. reflexivity. Qed.
-
-Lemma mapi_from_length {A B} (f : nat -> A -> B) n l : List.length (mapi_from f n l) = List.length l.
-Proof. revert n. induction l as [|x r IH]; intros n; simpl; [reflexivity|]. rewrite IH. reflexivity. Qed.
-
-Lemma mapi_from_snd {A} n (l : list A) : map snd (mapi_from (fun i x => (i, x)) n l) = l.
-Proof. rewrite map_mapi_from. apply mapi_from_id. reflexivity. Qed.
-
-Lemma in_mapi_from {A B} (f : nat -> A -> B) n l y : In y (mapi_from f n l) -> exists i x, In x l /\ y = f i x.
-Proof.
-  revert n. induction l as [|x r IH]; intros n H; simpl in H; [contradiction|].
-  destruct H as [H|H]; [exists n, x; split; [left; reflexivity|symmetry; exact H]|].
-  destruct (IH _ H) as (i & x' & Hin & E). exists i, x'. split; [right; exact Hin|exact E].
-Qed.
-
 Lemma mapM_ok_forall2 {A B} (f : A -> res B) l r : mapM f l = Ok r -> Forall2 (fun x y => f x = Ok y) l r.
 Proof.
   revert r. induction l as [|x t IH]; intros r H; simpl in H.
@@ -59,48 +36,26 @@ Proof.
   destruct (IH Hin) as (x & Hx & Hr). exists x. split; [right; exact Hx|exact Hr].
 Qed.
 
-(* ---------------------------------------------------------------- erase after (re)labelling is the identity:
-   Builder.DeepCopy / Option.DeepCopy return the same value *)
-Lemma erase_label_asg l a : erase_asg (label_asg l a) = a.
-Proof.
-  destruct a as [p v m cs ncs]. destruct v as [arg c env]. unfold label_asg, erase_asg. simpl.
-  destruct arg; reflexivity.
-Qed.
+Lemma in_concat_of {A} (x : A) l ls : In l ls -> In x l -> In x (List.concat ls).
+Proof. intros H1 H2. apply in_concat. exists l. split; assumption. Qed.
 
-Lemma erase_label_asgs base l : map erase_asg (label_asgs base l) = l.
-Proof.
-  unfold label_asgs, mapi. rewrite map_mapi_from. apply mapi_from_id. intros. apply erase_label_asg.
-Qed.
+Lemma forallb_map' {A B} (f : A -> B) (p : B -> bool) l : forallb p (map f l) = forallb (fun x => p (f x)) l.
+Proof. induction l as [|x r IH]; simpl; [reflexivity|]. rewrite IH. reflexivity. Qed.
 
-Lemma erase_label_option base o : erase_option (label_option base o) = o.
-Proof. destruct o. unfold erase_option, label_option. simpl. rewrite erase_label_asgs. reflexivity. Qed.
+Lemma forallb_ext' {A} (p q : A -> bool) l : (forall x, p x = q x) -> forallb p l = forallb q l.
+Proof. intros H. induction l as [|x r IH]; simpl; [reflexivity|]. rewrite H, IH. reflexivity. Qed.
 
-Lemma erase_label_builder base b : erase_builder (label_builder base b) = b.
-Proof.
-  destruct b as [f p n ps [ca cas] os fs]. unfold erase_builder, label_builder, erase_ctor. simpl.
-  rewrite erase_label_asgs. unfold mapi. rewrite map_mapi_from.
-  rewrite (mapi_from_id (fun i x => erase_option (label_option (base ++ [S i]) x))); [reflexivity|].
-  intros. apply erase_label_option.
-Qed.
-
-Lemma erase_label_builders t bs : erase_builders (label_builders t bs) = bs.
-Proof.
-  unfold erase_builders, label_builders, mapi. rewrite map_mapi_from. apply mapi_from_id. intros. apply erase_label_builder.
-Qed.
-
-Lemma erase_option_deep_copy base o : erase_option (option_deep_copy base o) = erase_option o.
-Proof. apply erase_label_option. Qed.
-Lemma erase_builder_deep_copy base b : erase_builder (builder_deep_copy base b) = erase_builder b.
-Proof. apply erase_label_builder. Qed.
+Lemma forallb_filter_sub {A} (p q : A -> bool) l : forallb p l = true -> forallb p (filter q l) = true.
+Proof. rewrite !forallb_forall. intros H x Hx. apply filter_In in Hx. apply H. apply Hx. Qed.
 
 (* ---------------------------------------------------------------- contracts of the builder rules *)
 (* omit removes exactly the selected builders, keeps the others in order *)
-Lemma omit_rule_spec ss t s bs bs' :
-  apply_builder_rule ss t (BROmit s) bs = Ok bs' -> bs' = filter (fun b => negb (sel_builder ss s b)) bs.
+Lemma omit_rule_spec ss s bs bs' :
+  apply_builder_rule ss (BROmit s) bs = Ok bs' -> bs' = filter (fun b => negb (sel_builder ss s b)) bs.
 Proof. simpl. intros H. inversion H. reflexivity. Qed.
 
-Lemma omit_removes_builders ss t s bs bs' :
-  apply_builder_rule ss t (BROmit s) bs = Ok bs' ->
+Lemma omit_removes_builders ss s bs bs' :
+  apply_builder_rule ss (BROmit s) bs = Ok bs' ->
   (forall b, In b bs' -> sel_builder ss s b = false /\ In b bs) /\
   (forall b, In b bs -> sel_builder ss s b = false -> In b bs').
 Proof.
@@ -111,89 +66,25 @@ Proof.
 Qed.
 
 (* rename: a map; a selected builder changes in its name only, the others not at all *)
-Lemma rename_rule_spec ss t s n bs bs' :
-  apply_builder_rule ss t (BRRename s n) bs = Ok bs' ->
+Lemma rename_rule_spec ss s n bs bs' :
+  apply_builder_rule ss (BRRename s n) bs = Ok bs' ->
   bs' = map (fun b => if sel_builder ss s b then set_name b n else b) bs.
 Proof. simpl. intros H. inversion H. reflexivity. Qed.
 
-Lemma set_name_only_name b n :
-  lb_name (set_name b n) = n /\ lb_for (set_name b n) = lb_for b /\ lb_pkg (set_name b n) = lb_pkg b /\
-  lb_props (set_name b n) = lb_props b /\ lb_ctor (set_name b n) = lb_ctor b /\
-  lb_options (set_name b n) = lb_options b /\ lb_factories (set_name b n) = lb_factories b.
-Proof. repeat split. Qed.
-
 (* duplicate: the builders, followed by one copy per selected builder, equal to it in every field
-   but the name (constructor, properties, options with their defaults, factories) *)
-Definition ewith_name (b : builder) (n : string) : builder :=
-  mkBuilder (b_for b) (b_pkg b) n (b_props b) (b_ctor b) (b_options b) (b_factories b).
+   but the name (constructor, properties, options with their defaults, factories); with excluded
+   options the copy lacks exactly the options named (case-insensitively) *)
+Lemma duplicate_rule_spec ss s n bs bs' :
+  apply_builder_rule ss (BRDuplicate s n []) bs = Ok bs' ->
+  bs' = bs ++ map (fun b => set_name b n) (filter (sel_builder ss s) bs).
+Proof. simpl. intros H. inversion H. reflexivity. Qed.
 
-Lemma erase_set_name b n : erase_builder (set_name b n) = ewith_name (erase_builder b) n.
-Proof. reflexivity. Qed.
-
-Lemma flat_map_mapi_sel {A B} (sel : A -> bool) (g : nat -> A -> B) (h : A -> B) n l :
-  (forall i x, g i x = h x) ->
-  flat_map (fun ib : nat * A => if sel (snd ib) then [g (fst ib) (snd ib)] else []) (mapi_from (fun i b => (i, b)) n l)
-  = map h (filter sel l).
-Proof.
-  intros H. revert n. induction l as [|x r IH]; intros n; simpl; [reflexivity|].
-  destruct (sel x); simpl; rewrite IH; [rewrite H|]; reflexivity.
-Qed.
-
-Lemma map_flat_map' {A B C} (f : B -> C) (g : A -> list B) l : map f (flat_map g l) = flat_map (fun x => map f (g x)) l.
-Proof. induction l as [|x r IH]; simpl; [reflexivity|]. rewrite map_app, IH. reflexivity. Qed.
-
-Lemma duplicate_rule_spec ss t s n bs bs' :
-  apply_builder_rule ss t (BRDuplicate s n []) bs = Ok bs' ->
-  erase_builders bs' = erase_builders bs ++ map (fun b => ewith_name (erase_builder b) n) (filter (sel_builder ss s) bs).
-Proof.
-  simpl. intros H. inversion H; subst; clear H. unfold duplicate_rule, erase_builders. rewrite map_app. f_equal.
-  unfold mapi. rewrite map_flat_map'.
-  rewrite (flat_map_ext _ (fun ib : nat * lbuilder => if sel_builder ss s (snd ib)
-                             then [(fun i b => ewith_name (erase_builder b) n) (fst ib) (snd ib)] else [])).
-  - apply (flat_map_mapi_sel (sel_builder ss s) (fun (_ : nat) b => ewith_name (erase_builder b) n)
-                                (fun b => ewith_name (erase_builder b) n)). reflexivity.
-  - intros [i b]. simpl. destruct (sel_builder ss s b); [|reflexivity]. simpl.
-    rewrite erase_set_name, erase_builder_deep_copy. reflexivity.
-Qed.
-
-Lemma erase_filter_options (p : string -> bool) os :
-  map erase_option (filter (fun o => p (lo_name o)) os) = filter (fun o => p (op_name o)) (map erase_option os).
-Proof. induction os as [|o r IH]; simpl; [reflexivity|]. destruct (p (lo_name o)); simpl; rewrite IH; reflexivity. Qed.
-
-Definition ewith_options (b : builder) (os : list boption) : builder :=
-  mkBuilder (b_for b) (b_pkg b) (b_name b) (b_props b) (b_ctor b) os (b_factories b).
-
-Lemma erase_set_options_filter (p : string -> bool) d :
-  erase_builder (set_options d (filter (fun o => p (lo_name o)) (lb_options d)))
-  = ewith_options (erase_builder d) (filter (fun o => p (op_name o)) (b_options (erase_builder d))).
-Proof. unfold erase_builder, set_options, ewith_options. simpl. rewrite erase_filter_options. reflexivity. Qed.
-
-(* with excluded options: the copy lacks exactly the options named (case-insensitively) *)
-Lemma duplicate_rule_spec_excl ss t s n e excl bs bs' :
-  apply_builder_rule ss t (BRDuplicate s n (e :: excl)) bs = Ok bs' ->
-  erase_builders bs' = erase_builders bs ++
-    map (fun b => ewith_options (ewith_name (erase_builder b) n)
-                    (filter (fun o => negb (string_in_list_equal_fold (op_name o) (e :: excl))) (b_options (erase_builder b))))
-        (filter (sel_builder ss s) bs).
-Proof.
-  cbn [apply_builder_rule]. intros H. inversion H; subst; clear H. unfold duplicate_rule, erase_builders. rewrite map_app. f_equal.
-  unfold mapi. rewrite map_flat_map'.
-  rewrite (flat_map_ext _ (fun ib : nat * lbuilder => if sel_builder ss s (snd ib)
-     then [(fun (i : nat) b => ewith_options (ewith_name (erase_builder b) n)
-                    (filter (fun o => negb (string_in_list_equal_fold (op_name o) (e :: excl))) (b_options (erase_builder b))))
-            (fst ib) (snd ib)] else [])).
-  - apply (flat_map_mapi_sel (sel_builder ss s)
-       (fun (_ : nat) b => ewith_options (ewith_name (erase_builder b) n)
-                    (filter (fun o => negb (string_in_list_equal_fold (op_name o) (e :: excl))) (b_options (erase_builder b))))
-       (fun b => ewith_options (ewith_name (erase_builder b) n)
-                    (filter (fun o => negb (string_in_list_equal_fold (op_name o) (e :: excl))) (b_options (erase_builder b))))).
-    reflexivity.
-  - intros [i b]. cbn [snd fst]. destruct (sel_builder ss s b); [|reflexivity]. cbn [map]. f_equal.
-    set (d := set_name (builder_deep_copy [t; i] b) n).
-    change (lb_options d) with (lb_options d).
-    rewrite (erase_set_options_filter (fun nm => negb (string_in_list_equal_fold nm (e :: excl))) d).
-    unfold d. rewrite erase_set_name, erase_builder_deep_copy. reflexivity.
-Qed.
+Lemma duplicate_rule_spec_excl ss s n e excl bs bs' :
+  apply_builder_rule ss (BRDuplicate s n (e :: excl)) bs = Ok bs' ->
+  bs' = bs ++ map (fun b => set_options (set_name b n)
+                              (filter (fun o => negb (string_in_list_equal_fold (op_name o) (e :: excl))) (b_options b)))
+                  (filter (sel_builder ss s) bs).
+Proof. simpl. intros H. inversion H. reflexivity. Qed.
 
 (* ---------------------------------------------------------------- frame of the builder rules: a builder
    the rule's selector does not select is still there, identical *)
@@ -228,8 +119,8 @@ Proof.
     + apply (IH _ _ H); assumption.
 Qed.
 
-Lemma builder_rule_frame ss t r bs bs' b :
-  apply_builder_rule ss t r bs = Ok bs' -> In b bs -> sel_builder ss (brule_selector r) b = false -> In b bs'.
+Lemma builder_rule_frame ss r bs bs' b :
+  apply_builder_rule ss r bs = Ok bs' -> In b bs -> sel_builder ss (brule_selector r) b = false -> In b bs'.
 Proof.
   destruct r as [s|s n|s src under excl ren|s c|s ps|s n excl|s set|s names|s o|s f]; cbn [apply_builder_rule brule_selector]; intros H Hin Hs.
   - inversion H; subst. unfold omit_rule. apply filter_In. split; [exact Hin|]. rewrite Hs. reflexivity.
@@ -247,897 +138,128 @@ Proof.
   - unfold add_factory_rule in H. apply (in_mapM_if _ _ _ _ _ H); assumption.
 Qed.
 
-(* ---------------------------------------------------------------- a write that reaches no holder changes nothing *)
-Lemma label_eqb_refl l : label_eqb l l = true.
-Proof. unfold label_eqb. apply leqb_refl_all. apply Nat.eqb_refl. Qed.
-
-Lemma apply_effect_asg_nohit e a : effect_hits_asg e a = false -> apply_effect_asg e a = a.
-Proof.
-  unfold effect_hits_asg, apply_effect_asg. destruct (la_arg a) as [[l arg]|]; [|reflexivity].
-  destruct e as [l' v|l' n|l' i n]; intros H; try rewrite H; reflexivity.
-Qed.
-
-Lemma map_id_on {A} (f : A -> A) l : (forall x, In x l -> f x = x) -> map f l = l.
-Proof. induction l as [|x r IH]; intros H; simpl; [reflexivity|]. rewrite H by (left; reflexivity). rewrite IH; [reflexivity|]. intros y Hy. apply H. right. exact Hy. Qed.
-
-Lemma existsb_false_in {A} (p : A -> bool) l x : existsb p l = false -> In x l -> p x = false.
-Proof.
-  intros H Hin. destruct (p x) eqn:E; [|reflexivity].
-  assert (existsb p l = true) by (apply existsb_exists; exists x; split; assumption). congruence.
-Qed.
-
-Lemma apply_effect_opt_nohit e o : effect_hits_opt e o = false -> apply_effect_opt e o = o.
-Proof.
-  unfold effect_hits_opt, apply_effect_opt. intros H. apply orb_false_iff in H. destruct H as [H1 H2].
-  rewrite (map_id_on (apply_effect_asg e)).
-  - destruct o as [n cs al args asgs d]. simpl in *. destruct e as [l v|l n'|l i n']; try reflexivity. rewrite H1. reflexivity.
-  - intros a Ha. apply apply_effect_asg_nohit. apply (existsb_false_in _ _ _ H2 Ha).
-Qed.
-
-Lemma apply_effect_builder_nohit e b : effect_hits_builder e b = false -> apply_effect_builder e b = b.
-Proof.
-  unfold effect_hits_builder, apply_effect_builder. intros H. apply orb_false_iff in H. destruct H as [H1 H2].
-  rewrite (map_id_on (apply_effect_asg e)), (map_id_on (apply_effect_opt e)).
-  - destruct b as [f p n ps [ca cas] os fs]. reflexivity.
-  - intros o Ho. apply apply_effect_opt_nohit. apply (existsb_false_in _ _ _ H2 Ho).
-  - intros a Ha. apply apply_effect_asg_nohit. apply (existsb_false_in _ _ _ H1 Ha).
-Qed.
-
-Lemma apply_effects_builder_nohit es b : (forall e, In e es -> effect_hits_builder e b = false) -> apply_effects_builder es b = b.
-Proof.
-  unfold apply_effects_builder. induction es as [|e r IH]; intros H; simpl; [reflexivity|].
-  rewrite apply_effect_builder_nohit by (apply H; left; reflexivity). apply IH. intros e' He'. apply H. right. exact He'.
-Qed.
-
-Lemma apply_effects_opt_nohit es o : (forall e, In e es -> effect_hits_opt e o = false) -> apply_effects_opt es o = o.
-Proof.
-  unfold apply_effects_opt. induction es as [|e r IH]; intros H; simpl; [reflexivity|].
-  rewrite apply_effect_opt_nohit by (apply H; left; reflexivity). apply IH. intros e' He'. apply H. right. exact He'.
-Qed.
-
-Lemma effects_hit_ctx_false es c processed remaining :
-  effects_hit_ctx es c processed remaining = false ->
-  map (apply_effects_builder es) (cx_done c) = cx_done c /\ apply_effects_builder es (cx_cur c) = cx_cur c /\
-  map (apply_effects_builder es) (cx_rest c) = cx_rest c /\
-  map (apply_effects_opt es) processed = processed /\ map (apply_effects_opt es) remaining = remaining.
-Proof.
-  unfold effects_hit_ctx. intros H.
-  assert (HE : forall e, In e es ->
-             existsb (effect_hits_builder e) (cx_done c) = false /\ effect_hits_builder e (cx_cur c) = false /\
-             existsb (effect_hits_builder e) (cx_rest c) = false /\ existsb (effect_hits_opt e) processed = false /\
-             existsb (effect_hits_opt e) remaining = false).
-  { intros e He. pose proof (existsb_false_in _ _ _ H He) as F. simpl in F.
-    repeat (apply orb_false_iff in F; destruct F as [F ?]). repeat split; assumption. }
-  repeat split.
-  - apply map_id_on. intros b Hb. apply apply_effects_builder_nohit. intros e He. destruct (HE e He) as (A & _). apply (existsb_false_in _ _ _ A Hb).
-  - apply apply_effects_builder_nohit. intros e He. destruct (HE e He) as (_ & A & _). exact A.
-  - apply map_id_on. intros b Hb. apply apply_effects_builder_nohit. intros e He. destruct (HE e He) as (_ & _ & A & _). apply (existsb_false_in _ _ _ A Hb).
-  - apply map_id_on. intros o Ho. apply apply_effects_opt_nohit. intros e He. destruct (HE e He) as (_ & _ & _ & A & _). apply (existsb_false_in _ _ _ A Ho).
-  - apply map_id_on. intros o Ho. apply apply_effects_opt_nohit. intros e He. destruct (HE e He) as (_ & _ & _ & _ & A). apply (existsb_false_in _ _ _ A Ho).
-Qed.
-
-(* ---------------------------------------------------------------- applyOptionRules: as the code runs vs. without sharing *)
-Definition option_step (ss : schemas) (t i : nat) (r : orule) (b : lbuilder) (ko : nat * loption) : res (list loption) :=
-  if sel_option (or_sel r) b (snd ko)
-  then do ar <- run_action ss t [t; i; fst ko] (or_action r) b (snd ko) ; Ok (fst ar)
-  else Ok [snd ko].
-
-Lemma process_options_flag_mono ss t i r b fuel : forall k c processed remaining c' out,
-  process_options ss t i r b k c processed remaining fuel = Ok (c', out) -> cx_flag c = true -> cx_flag c' = true.
-Proof.
-  induction fuel as [|f IH]; intros k c processed remaining c' out H Hf.
-  - destruct remaining; simpl in H; [inversion H; subst; exact Hf|discriminate].
-  - destruct remaining as [|o rest]; simpl in H; [inversion H; subst; exact Hf|].
-    destruct (sel_option (or_sel r) b o).
-    + destruct (run_action ss t [t; i; k] (or_action r) b o) as [[newopts effs]| | |]; simpl in H; try discriminate.
-      apply IH in H; [exact H|]. simpl. rewrite Hf. reflexivity.
-    + apply IH in H; assumption.
-Qed.
-
-Lemma process_options_pure_agrees ss t i r b fuel : forall k c processed remaining c' out,
-  process_options ss t i r b k c processed remaining fuel = Ok (c', out) -> cx_flag c' = false ->
-  c' = c /\ exists outs, mapM (option_step ss t i r b) (mapi_from (fun k o => (k, o)) k remaining) = Ok outs /\
-                         out = processed ++ List.concat outs.
-Proof.
-  induction fuel as [|f IH]; intros k c processed remaining c' out H Hf.
-  - destruct remaining; simpl in H; [|discriminate]. inversion H; subst. split; [reflexivity|].
-    exists []. split; [reflexivity|]. simpl. rewrite app_nil_r. reflexivity.
-  - destruct remaining as [|o rest]; simpl in H.
-    + inversion H; subst. split; [reflexivity|]. exists []. split; [reflexivity|]. simpl. rewrite app_nil_r. reflexivity.
-    + simpl. unfold option_step at 1. simpl. destruct (sel_option (or_sel r) b o).
-      * destruct (run_action ss t [t; i; k] (or_action r) b o) as [[newopts effs]| | |]; simpl in H; try discriminate.
-        pose proof H as H0.
-        destruct (effects_hit_ctx effs c processed rest) eqn:Eh.
-        { apply process_options_flag_mono in H0; [congruence|]. simpl. rewrite orb_true_r. reflexivity. }
-        destruct (cx_flag c) eqn:Ec.
-        { apply process_options_flag_mono in H0; [congruence|]. reflexivity. }
-        destruct (effects_hit_ctx_false _ _ _ _ Eh) as (E1 & E2 & E3 & E4 & E5).
-        rewrite E1, E2, E3, E4, E5 in H. simpl in H.
-        assert (Hc : {| cx_done := cx_done c; cx_cur := cx_cur c; cx_rest := cx_rest c; cx_flag := false |} = c)
-          by (destruct c; simpl in *; subst; reflexivity).
-        rewrite Hc in H. destruct (IH _ _ _ _ _ _ H Hf) as (Ec' & outs & Hm & Ho).
-        split; [exact Ec'|]. exists (newopts :: outs). simpl. rewrite Hm. simpl. split; [reflexivity|].
-        rewrite Ho. rewrite <- app_assoc. reflexivity.
-      * destruct (IH _ _ _ _ _ _ H Hf) as (Ec' & outs & Hm & Ho).
-        split; [exact Ec'|]. exists ([o] :: outs). simpl. rewrite Hm. simpl. split; [reflexivity|].
-        rewrite Ho. rewrite <- app_assoc. reflexivity.
-Qed.
-
-Lemma process_options_pure_unfold ss t i r b :
-  process_options_pure ss t i r b = do outs <- mapM (option_step ss t i r b) (mapi (fun k o => (k, o)) (lb_options b)) ; Ok (List.concat outs).
-Proof. reflexivity. Qed.
-
-Definition builder_step (ss : schemas) (t : nat) (r : orule) (ib : nat * lbuilder) : res lbuilder :=
-  do os <- process_options_pure ss t (fst ib) r (snd ib) ; Ok (set_options (snd ib) os).
-
-Lemma apply_option_rule_go_flag_mono ss t r fuel : forall done rest flag bs' fl,
-  apply_option_rule_go ss t r done rest flag fuel = Ok (bs', fl) -> flag = true -> fl = true.
-Proof.
-  induction fuel as [|f IH]; intros done rest flag bs' fl H Hf.
-  - destruct rest; simpl in H; [inversion H; subst; reflexivity|discriminate].
-  - destruct rest as [|b rest']; simpl in H; [inversion H; subst; reflexivity|].
-    destruct (process_options _ _ _ _ _ _ _ _ _ _) as [[c processed]| | |] eqn:Ep; simpl in H; try discriminate.
-    apply (IH _ _ _ _ _ H). apply process_options_flag_mono in Ep; [exact Ep|]. simpl. exact Hf.
-Qed.
-
-Lemma apply_option_rule_go_pure_agrees ss t r fuel : forall done rest flag bs',
-  apply_option_rule_go ss t r done rest flag fuel = Ok (bs', false) ->
-  flag = false /\ exists outs, mapM (builder_step ss t r) (mapi_from (fun i b => (i, b)) (List.length done) rest) = Ok outs /\
-                               bs' = done ++ outs.
-Proof.
-  induction fuel as [|f IH]; intros done rest flag bs' H.
-  - destruct rest; simpl in H; [|discriminate]. inversion H; subst. split; [reflexivity|]. exists []. split; [reflexivity|].
-    rewrite app_nil_r. reflexivity.
-  - destruct rest as [|b rest']; simpl in H.
-    + inversion H; subst. split; [reflexivity|]. exists []. split; [reflexivity|]. rewrite app_nil_r. reflexivity.
-    + destruct (process_options _ _ _ _ _ _ _ _ _ _) as [[c processed]| | |] eqn:Ep; simpl in H; try discriminate.
-      destruct (IH _ _ _ _ H) as (Hfc & outs & Hm & Hb).
-      destruct (process_options_pure_agrees _ _ _ _ _ _ _ _ _ _ _ _ Ep Hfc) as (Ec & pouts & Hpm & Hpo).
-      subst c. simpl in *. split; [exact Hfc|].
-      exists (set_options b processed :: outs). split.
-      * unfold builder_step at 1. simpl. rewrite process_options_pure_unfold. unfold mapi. rewrite Hpm. simpl.
-        rewrite Hpo. simpl.
-        rewrite app_length in Hm. simpl in Hm. rewrite Nat.add_1_r in Hm. rewrite Hm. reflexivity.
-      * rewrite Hb. rewrite <- app_assoc. reflexivity.
-Qed.
-
-(* when no write reached a sharer, the rule did what it does on unshared data *)
-Lemma apply_option_rule_pure_agrees ss t r bs flag bs' :
-  apply_option_rule ss t r bs flag = Ok (bs', false) -> flag = false /\ apply_option_rule_pure ss t r bs = Ok bs'.
-Proof.
-  unfold apply_option_rule. intros H. destruct (apply_option_rule_go_pure_agrees _ _ _ _ _ _ _ _ H) as (Hf & outs & Hm & Hb).
-  split; [exact Hf|]. unfold apply_option_rule_pure, mapi. simpl in Hm. subst bs'. exact Hm.
-Qed.
-
-(* ---------------------------------------------------------------- frame of the option rules (no sharing) *)
-
-Lemma lsame_refl b : lsame_but_options b b.
+(* ---------------------------------------------------------------- frame of the option rules *)
+Lemma same_header_refl b : same_header b b.
 Proof. repeat split. Qed.
-Lemma lsame_trans a b c : lsame_but_options a b -> lsame_but_options b c -> lsame_but_options a c.
-Proof. unfold lsame_but_options. intuition congruence. Qed.
-Lemma lsame_set_options b os : lsame_but_options b (set_options b os).
+Lemma same_header_trans a b c : same_header a b -> same_header b c -> same_header a c.
+Proof. unfold same_header. intuition congruence. Qed.
+Lemma same_header_set_options b os : same_header b (set_options b os).
 Proof. repeat split. Qed.
 
 (* selectors only read For, Package and Name of the builder *)
-Lemma sel_builder_header ss s a b : lsame_but_options a b -> sel_builder ss s a = sel_builder ss s b.
+Lemma sel_builder_header ss s a b : same_header a b -> sel_builder ss s a = sel_builder ss s b.
 Proof. intros (Hf & Hp & Hn & _). destruct s; simpl; rewrite ?Hf, ?Hn; reflexivity. Qed.
-Lemma sel_option_header s a b o : lsame_but_options a b -> sel_option s a o = sel_option s b o.
+Lemma sel_option_header s a b o : same_header a b -> sel_option s a o = sel_option s b o.
 Proof. intros (Hf & Hp & Hn & _). destruct s; simpl; rewrite ?Hf, ?Hn, ?Hp; reflexivity. Qed.
 
-Lemma in_concat_of {A} (x : A) l ls : In l ls -> In x l -> In x (List.concat ls).
-Proof. intros H1 H2. apply in_concat. exists l. split; assumption. Qed.
-
-Lemma in_mapi_from_pair {A} (x : A) l : In x l -> forall n, exists k, In (k, x) (mapi_from (fun i y => (i, y)) n l).
+Lemma process_options_frame ss r b os' o :
+  process_options ss r b = Ok os' -> In o (b_options b) -> sel_option (or_sel r) b o = false -> In o os'.
 Proof.
-  induction l as [|y r IH]; intros Hin n; [contradiction|].
-  destruct Hin as [->|Hin]; [exists n; left; reflexivity|]. destruct (IH Hin (S n)) as (k & Hk). exists k. right. exact Hk.
-Qed.
-
-Lemma process_options_pure_frame ss t i r b os' o :
-  process_options_pure ss t i r b = Ok os' -> In o (lb_options b) -> sel_option (or_sel r) b o = false -> In o os'.
-Proof.
-  rewrite process_options_pure_unfold. intros H Hin Hs.
+  unfold process_options. intros H Hin Hs.
   destruct (mapM _ _) as [outs| | |] eqn:Em; simpl in H; try discriminate. inversion H; subst. clear H.
-  apply mapM_ok_forall2 in Em.
-  destruct (in_mapi_from_pair o _ Hin 0) as (k & Hk). destruct (forall2_in_l _ _ _ _ Em Hk) as (out & Hout & E).
-  unfold option_step in E. simpl in E. rewrite Hs in E. inversion E; subst.
+  apply mapM_ok_forall2 in Em. destruct (forall2_in_l _ _ _ _ Em Hin) as (out & Hout & E).
+  unfold option_step in E. rewrite Hs in E. inversion E; subst.
   apply (in_concat_of _ [o]); [exact Hout|left; reflexivity].
 Qed.
 
-Lemma apply_option_rule_pure_frame ss t r bs bs' b :
-  apply_option_rule_pure ss t r bs = Ok bs' -> In b bs ->
-  exists b', In b' bs' /\ lsame_but_options b b' /\
-             forall o, In o (lb_options b) -> sel_option (or_sel r) b o = false -> In o (lb_options b').
+Lemma apply_option_rule_frame ss r bs bs' b :
+  apply_option_rule ss r bs = Ok bs' -> In b bs ->
+  exists b', In b' bs' /\ same_header b b' /\
+             forall o, In o (b_options b) -> sel_option (or_sel r) b o = false -> In o (b_options b').
 Proof.
-  unfold apply_option_rule_pure. intros H Hin. apply mapM_ok_forall2 in H.
-  destruct (in_mapi_from_pair b _ Hin 0) as (i & Hi). destruct (forall2_in_l _ _ _ _ H Hi) as (b' & Hb' & E). simpl in E.
-  destruct (process_options_pure ss t i r b) as [os'| | |] eqn:Ep; simpl in E; try discriminate. inversion E; subst.
-  exists (set_options b os'). split; [exact Hb'|]. split; [apply lsame_set_options|].
-  intros o Ho Hs. simpl. apply (process_options_pure_frame _ _ _ _ _ _ _ Ep Ho Hs).
+  unfold apply_option_rule. intros H Hin. apply mapM_ok_forall2 in H.
+  destruct (forall2_in_l _ _ _ _ H Hin) as (b' & Hb' & E).
+  destruct (process_options ss r b) as [os'| | |] eqn:Ep; simpl in E; try discriminate. inversion E; subst.
+  exists (set_options b os'). split; [exact Hb'|]. split; [apply same_header_set_options|].
+  intros o Ho Hs. simpl. apply (process_options_frame _ _ _ _ _ Ep Ho Hs).
 Qed.
+
 (* option rules keep every builder (same header), in order *)
-Lemma apply_option_rule_pure_headers ss t r bs bs' :
-  apply_option_rule_pure ss t r bs = Ok bs' -> Forall2 lsame_but_options bs bs'.
+Lemma apply_option_rule_headers ss r bs bs' :
+  apply_option_rule ss r bs = Ok bs' -> Forall2 same_header bs bs'.
 Proof.
-  unfold apply_option_rule_pure, mapi. generalize 0. revert bs'.
-  induction bs as [|b rr IH]; intros bs' n H; simpl in H.
-  - inversion H. constructor.
-  - destruct (process_options_pure ss t n r b) as [os'| | |]; simpl in H; try discriminate.
-    destruct (mapM _ (mapi_from _ (S n) rr)) as [rest| | |] eqn:Em; simpl in H; try discriminate.
-    inversion H; subst. constructor; [apply lsame_set_options|]. apply (IH _ _ Em).
+  unfold apply_option_rule. intros H. apply mapM_ok_forall2 in H. induction H as [|b b' l l' E _ IH]; constructor; [|exact IH].
+  destruct (process_options ss r b); simpl in E; try discriminate. inversion E. apply same_header_set_options.
 Qed.
 
 (* ---------------------------------------------------------------- frame of whole sequences *)
 (* what is tracked: builder b of the input and a set `kept` of its options *)
-Definition survives (b : lbuilder) (kept : list loption) (cur : list lbuilder) : Prop :=
-  exists b', In b' cur /\ lsame_but_options b b' /\ forall o, In o kept -> In o (lb_options b').
+Definition survives (b : builder) (kept : list boption) (cur : list builder) : Prop :=
+  exists b', In b' cur /\ same_header b b' /\ forall o, In o kept -> In o (b_options b').
 
-Lemma survives_builder_rules ss b kept : forall rs t cur cur',
-  apply_builder_rules ss t rs cur = Ok cur' ->
+Lemma survives_builder_rules ss b kept : forall rs cur cur',
+  apply_builder_rules ss rs cur = Ok cur' ->
   (forall r, In r rs -> sel_builder ss (brule_selector r) b = false) ->
   survives b kept cur -> survives b kept cur'.
 Proof.
-  induction rs as [|r rest IH]; intros t cur cur' H Hsel Hs; simpl in H.
+  induction rs as [|r rest IH]; intros cur cur' H Hsel Hs; simpl in H.
   - inversion H; subst. exact Hs.
-  - destruct (apply_builder_rule ss t r cur) as [cur1| | |] eqn:E; simpl in H; try discriminate.
-    apply (IH _ _ _ H); [intros r' Hr'; apply Hsel; right; exact Hr'|].
+  - destruct (apply_builder_rule ss r cur) as [cur1| | |] eqn:E; simpl in H; try discriminate.
+    apply (IH _ _ H); [intros r' Hr'; apply Hsel; right; exact Hr'|].
     destruct Hs as (b1 & Hin & Hsame & Hk). exists b1. split; [|split; assumption].
-    apply (builder_rule_frame _ _ _ _ _ _ E Hin). rewrite <- (sel_builder_header ss _ b b1 Hsame). apply Hsel. left. reflexivity.
+    apply (builder_rule_frame _ _ _ _ _ E Hin). rewrite <- (sel_builder_header ss _ b b1 Hsame). apply Hsel. left. reflexivity.
 Qed.
 
-Lemma option_rules_go_flag_mono ss : forall rs t cur flag cur' fl,
-  apply_option_rules_go true ss t rs cur flag = Ok (cur', fl) -> flag = true -> fl = true.
-Proof.
-  induction rs as [|r rest IH]; intros t cur flag cur' fl H Hf; simpl in H.
-  - inversion H; subst. reflexivity.
-  - destruct (apply_option_rule ss t r cur flag) as [[cur1 fl1]| | |] eqn:E; simpl in H; try discriminate.
-    apply (IH _ _ _ _ _ H). unfold apply_option_rule in E. apply (apply_option_rule_go_flag_mono _ _ _ _ _ _ _ _ _ E Hf).
-Qed.
-
-Lemma apply_language_flag_mono ss lrs l t cur flag cur' fl :
-  apply_language true ss t lrs l cur flag = Ok (cur', fl) -> flag = true -> fl = true.
-Proof.
-  unfold apply_language, apply_option_rules. intros H Hf.
-  destruct (apply_builder_rules _ _ _ _) as [cur1| | |]; simpl in H; try discriminate.
-  destruct (apply_option_rules_go true ss _ _ cur1 flag) as [[cur2 fl2]| | |] eqn:E2; simpl in H; try discriminate.
-  inversion H; subst. apply (option_rules_go_flag_mono _ _ _ _ _ _ _ E2 eq_refl).
-Qed.
-
-Lemma survives_option_rules_go ss b kept : forall rs t cur flag cur' ,
-  apply_option_rules_go true ss t rs cur flag = Ok (cur', false) ->
+Lemma survives_option_rules_go ss b kept : forall rs cur cur',
+  apply_option_rules_go ss rs cur = Ok cur' ->
   (forall r o, In r rs -> In o kept -> sel_option (or_sel r) b o = false) ->
   survives b kept cur -> survives b kept cur'.
 Proof.
-  induction rs as [|r rest IH]; intros t cur flag cur' H Hsel Hs; simpl in H.
+  induction rs as [|r rest IH]; intros cur cur' H Hsel Hs; simpl in H.
   - inversion H; subst. exact Hs.
-  - destruct (apply_option_rule ss t r cur flag) as [[cur1 fl1]| | |] eqn:E; simpl in H; try discriminate.
-    simpl in H. destruct fl1.
-    + apply option_rules_go_flag_mono in H; [discriminate|reflexivity].
-    + destruct (apply_option_rule_pure_agrees _ _ _ _ _ _ E) as (Hf & Ep).
-      apply (IH _ _ _ _ H); [intros r' o Hr' Ho; apply Hsel; [right; exact Hr'|exact Ho]|].
-      destruct Hs as (b1 & Hin & Hsame & Hk).
-      destruct (apply_option_rule_pure_frame _ _ _ _ _ _ Ep Hin) as (b2 & Hin2 & Hsame2 & Hk2).
-      exists b2. split; [exact Hin2|]. split; [apply (lsame_trans _ _ _ Hsame Hsame2)|].
-      intros o Ho. apply Hk2; [apply Hk; exact Ho|].
-      rewrite <- (sel_option_header _ b b1 o Hsame). apply (Hsel r o); [left; reflexivity|exact Ho].
+  - destruct (apply_option_rule ss r cur) as [cur1| | |] eqn:E; simpl in H; try discriminate.
+    apply (IH _ _ H); [intros r' o Hr' Ho; apply Hsel; [right; exact Hr'|exact Ho]|].
+    destruct Hs as (b1 & Hin & Hsame & Hk).
+    destruct (apply_option_rule_frame _ _ _ _ _ E Hin) as (b2 & Hin2 & Hsame2 & Hk2).
+    exists b2. split; [exact Hin2|]. split; [apply (same_header_trans _ _ _ Hsame Hsame2)|].
+    intros o Ho. apply Hk2; [apply Hk; exact Ho|].
+    rewrite <- (sel_option_header _ b b1 o Hsame). apply (Hsel r o); [left; reflexivity|exact Ho].
 Qed.
 
 Lemma survives_filter b kept cur : kept <> [] -> survives b kept cur -> survives b kept (filter has_options cur).
 Proof.
   intros Hne (b1 & Hin & Hsame & Hk). exists b1. split; [|split; assumption].
   apply filter_In. split; [exact Hin|]. unfold has_options. destruct kept as [|o kk]; [contradiction|].
-  specialize (Hk o (or_introl eq_refl)). destruct (lb_options b1); [contradiction|reflexivity].
+  specialize (Hk o (or_introl eq_refl)). destruct (b_options b1); [contradiction|reflexivity].
 Qed.
 
-Lemma survives_language ss lrs l b kept t cur flag cur' :
-  apply_language true ss t lrs l cur flag = Ok (cur', false) ->
+Lemma survives_language ss lrs l b kept cur cur' :
+  apply_language ss lrs l cur = Ok cur' ->
   (forall r, In r (builder_rules_for l lrs) -> sel_builder ss (brule_selector r) b = false) ->
   (forall r o, In r (option_rules_for l lrs) -> In o kept -> sel_option (or_sel r) b o = false) ->
   kept <> [] -> survives b kept cur -> survives b kept cur'.
 Proof.
   unfold apply_language, apply_option_rules. intros H Hb Ho Hne Hs.
-  destruct (apply_builder_rules ss t (builder_rules_for l lrs) cur) as [cur1| | |] eqn:E1; simpl in H; try discriminate.
-  destruct (apply_option_rules_go true ss _ _ cur1 flag) as [[cur2 fl2]| | |] eqn:E2; simpl in H; try discriminate.
+  destruct (apply_builder_rules ss (builder_rules_for l lrs) cur) as [cur1| | |] eqn:E1; simpl in H; try discriminate.
+  destruct (apply_option_rules_go ss _ cur1) as [cur2| | |] eqn:E2; simpl in H; try discriminate.
   inversion H; subst.
-  pose proof (survives_builder_rules _ _ kept _ _ _ _ E1 Hb Hs) as Hs1.
-  apply survives_filter; [assumption|]. apply (survives_option_rules_go _ _ _ _ _ _ _ _ E2 Ho Hs1).
+  pose proof (survives_builder_rules _ _ kept _ _ _ E1 Hb Hs) as Hs1.
+  apply survives_filter; [assumption|]. apply (survives_option_rules_go _ _ _ _ _ _ E2 Ho Hs1).
 Qed.
 
-(* the frame theorem on rule sequences, as the rewriter applies them: when no write reached a
-   sharer, a builder no builder rule selects is still there with the same For, Package, Name,
-   properties, constructor and factories, and with every option of it that no option rule selects *)
-Theorem unselected_unchanged_rules ss lrs lang bs lbs' b kept :
-  apply_to_rules true ss lrs lang bs = Ok (lbs', false) ->
+(* the frame theorem on rule sequences, as the rewriter applies them: a builder no builder rule
+   selects is still there with the same For, Package, Name, properties, constructor and factories,
+   and with every option of it that no option rule selects *)
+Theorem unselected_unchanged_rules ss lrs lang bs bs' b kept :
+  apply_to_rules ss lrs lang bs = Ok bs' ->
   In b bs ->
   (forall r, In r (builder_rules_for all_languages lrs ++ builder_rules_for lang lrs) -> sel_builder ss (brule_selector r) b = false) ->
-  (forall o, In o kept -> In o (lb_options b)) ->
+  (forall o, In o kept -> In o (b_options b)) ->
   (forall r o, In r (option_rules_for all_languages lrs ++ option_rules_for lang lrs) -> In o kept -> sel_option (or_sel r) b o = false) ->
   kept <> [] ->
-  exists b', In b' lbs' /\ lsame_but_options b b' /\ forall o, In o kept -> In o (lb_options b').
+  exists b', In b' bs' /\ same_header b b' /\ forall o, In o kept -> In o (b_options b').
 Proof.
   unfold apply_to_rules. intros H Hin Hb Hk Ho Hne.
-  destruct (apply_language true ss 1 lrs all_languages bs false) as [[bs1 fl1]| | |] eqn:E1; simpl in H; try discriminate.
-  destruct fl1; [apply apply_language_flag_mono in H; [discriminate|reflexivity]|].
-  assert (Hs0 : survives b kept bs) by (exists b; split; [exact Hin|split; [apply lsame_refl|exact Hk]]).
+  destruct (apply_language ss lrs all_languages bs) as [bs1| | |] eqn:E1; simpl in H; try discriminate.
+  assert (Hs0 : survives b kept bs) by (exists b; split; [exact Hin|split; [apply same_header_refl|exact Hk]]).
   assert (Hs1 : survives b kept bs1).
-  { apply (survives_language _ _ _ _ _ _ _ _ _ E1); try assumption.
+  { apply (survives_language _ _ _ _ _ _ _ E1); try assumption.
     - intros r Hr. apply Hb. apply in_or_app. left. exact Hr.
     - intros r o Hr. apply Ho. apply in_or_app. left. exact Hr. }
-  apply (survives_language _ _ _ _ _ _ _ _ _ H); try assumption.
+  apply (survives_language _ _ _ _ _ _ _ H); try assumption.
   - intros r Hr. apply Hb. apply in_or_app. right. exact Hr.
   - intros r o Hr. apply Ho. apply in_or_app. right. exact Hr.
 Qed.
-
-(* ---------------------------------------------------------------- contracts of the option actions *)
-Lemma mapM_mapi_from_ok {A B} (f : nat * A -> res B) (g : nat -> A -> B) l : forall n,
-  (forall k x, In x l -> f (k, x) = Ok (g k x)) ->
-  mapM f (mapi_from (fun k x => (k, x)) n l) = Ok (mapi_from g n l).
-Proof.
-  induction l as [|x r IH]; intros n H; simpl; [reflexivity|].
-  rewrite (H n x (or_introl eq_refl)). simpl. rewrite IH; [reflexivity|]. intros k y Hy. apply H. right. exact Hy.
-Qed.
-
-(* an action that always succeeds with options g k o turns applyOptionRules into a flat map *)
-Lemma process_options_pure_simple ss t i r b (g : nat -> loption -> list loption) :
-  (forall k o, In o (lb_options b) -> sel_option (or_sel r) b o = true ->
-               exists effs, run_action ss t [t; i; k] (or_action r) b o = Ok (g k o, effs)) ->
-  process_options_pure ss t i r b
-  = Ok (List.concat (mapi (fun k o => if sel_option (or_sel r) b o then g k o else [o]) (lb_options b))).
-Proof.
-  intros H. rewrite process_options_pure_unfold. unfold mapi.
-  rewrite (mapM_mapi_from_ok _ (fun k o => if sel_option (or_sel r) b o then g k o else [o])); [reflexivity|].
-  intros k o Ho. unfold option_step. simpl. destruct (sel_option (or_sel r) b o) eqn:Es; [|reflexivity].
-  destruct (H k o Ho Es) as (effs & E). rewrite E. reflexivity.
-Qed.
-
-Lemma concat_mapi_filter {A} (sel : A -> bool) l : forall n,
-  List.concat (mapi_from (fun (_ : nat) o => if sel o then [] else [o]) n l) = filter (fun o => negb (sel o)) l.
-Proof. induction l as [|x r IH]; intros n; simpl; [reflexivity|]. rewrite IH. destruct (sel x); reflexivity. Qed.
-
-Lemma concat_mapi_map {A} (sel : A -> bool) (f : A -> A) l : forall n,
-  List.concat (mapi_from (fun (_ : nat) o => if sel o then [f o] else [o]) n l) = map (fun o => if sel o then f o else o) l.
-Proof. induction l as [|x r IH]; intros n; simpl; [reflexivity|]. rewrite IH. destruct (sel x); reflexivity. Qed.
-
-(* omit removes exactly the selected options *)
-Lemma omit_option_spec ss t i s b :
-  process_options_pure ss t i (mkORule s AOmit) b = Ok (filter (fun o => negb (sel_option s b o)) (lb_options b)).
-Proof.
-  rewrite (process_options_pure_simple _ _ _ _ _ (fun _ _ => [])).
-  - simpl. unfold mapi. rewrite concat_mapi_filter. reflexivity.
-  - intros. exists []. reflexivity.
-Qed.
-
-(* rename changes the name of the selected options and nothing else *)
-Lemma rename_option_spec ss t i s n b :
-  process_options_pure ss t i (mkORule s (ARename n)) b
-  = Ok (map (fun o => if sel_option s b o then set_oname o n else o) (lb_options b)).
-Proof.
-  rewrite (process_options_pure_simple _ _ _ _ _ (fun _ o => [set_oname o n])).
-  - simpl. unfold mapi. rewrite concat_mapi_map. reflexivity.
-  - intros. exists []. reflexivity.
-Qed.
-
-Lemma add_comments_option_spec ss t i s cs b :
-  process_options_pure ss t i (mkORule s (AAddComments cs)) b
-  = Ok (map (fun o => if sel_option s b o then set_ocomments o (lo_comments o ++ cs) else o) (lb_options b)).
-Proof.
-  rewrite (process_options_pure_simple _ _ _ _ _ (fun _ o => [set_ocomments o (lo_comments o ++ cs)])).
-  - simpl. unfold mapi. rewrite concat_mapi_map. reflexivity.
-  - intros. exists []. reflexivity.
-Qed.
-
-(* duplicate (option): the option followed by a copy equal to it in everything but the name *)
-Definition ewith_oname (o : boption) (n : string) : boption :=
-  mkOption n (op_comments o) (op_args o) (op_assignments o) (op_default o).
-Lemma duplicate_action_spec ss t base n b o :
-  exists o', run_action ss t base (ADuplicate n) b o = Ok ([o; o'], []) /\ erase_option o' = ewith_oname (erase_option o) n.
-Proof.
-  eexists. split; [reflexivity|]. unfold erase_option at 1. simpl. rewrite erase_label_asgs. reflexivity.
-Qed.
-
-(* writes keep the path of every assignment *)
-Lemma apply_effect_asg_path e a : la_path (apply_effect_asg e a) = la_path a.
-Proof. unfold apply_effect_asg. destruct (la_arg a) as [[l x]|]; [|reflexivity]. destruct e; try destruct (label_eqb _ _); reflexivity. Qed.
-Lemma apply_effects_asg_path es a : la_path (fold_left (fun y e => apply_effect_asg e y) es a) = la_path a.
-Proof. revert a. induction es as [|e r IH]; intros a; simpl; [reflexivity|]. rewrite IH. apply apply_effect_asg_path. Qed.
-Lemma apply_effect_asg_method e a : la_method (apply_effect_asg e a) = la_method a.
-Proof. unfold apply_effect_asg. destruct (la_arg a) as [[l x]|]; [|reflexivity]. destruct e; try destruct (label_eqb _ _); reflexivity. Qed.
-
-(* array_to_append: either nothing happens, or the option keeps its name and assigns the same
-   paths, the first one now by appending one element of the array's value type *)
-Lemma array_to_append_spec base o os effs :
-  array_to_append_action base o = Ok (os, effs) ->
-  (os = [o] /\ effs = []) \/
-  exists a al v first rest o' first' rest',
-    lo_args o = [a] /\ a_type a = TArray al v /\ lo_assignments o = first :: rest /\
-    os = [o'] /\ lo_name o' = lo_name o /\ lo_comments o' = lo_comments o /\ lo_default o' = lo_default o /\
-    lo_args o' = [mkArg (singularize (a_name a)) v] /\
-    lo_assignments o' = first' :: rest' /\
-    la_path first' = la_path first /\ la_method first' = "append" /\
-    map la_path rest' = map la_path rest /\
-    (forall l x, la_arg first = Some (l, x) -> la_arg first' = Some (l, mkArg (singularize (a_name a)) v)).
-Proof.
-  unfold array_to_append_action. destruct (lo_args o) as [|a [|a2 r2]] eqn:Ea; try (intros H; inversion H; left; split; reflexivity).
-  destruct (a_type a) eqn:Et; try (intros H; inversion H; left; split; reflexivity).
-  destruct (lo_assignments o) as [|first rest] eqn:Eas; [discriminate|].
-  intros H. inversion H; subst; clear H. right.
-  exists a. do 2 eexists. exists first, rest. do 3 eexists.
-  split; [reflexivity|]. split; [exact Et|]. split; [reflexivity|]. repeat split; try reflexivity.
-  - destruct (la_arg first) as [[l x]|]; reflexivity.
-  - rewrite map_map. apply map_ext. intros x. apply apply_effects_asg_path.
-  - intros l x Hl. rewrite Hl. reflexivity.
-Qed.
-
-(* map_to_index: the first assignment goes one level below the original path, at the index
-   given by the new argument `key`; the value argument is one element of the map *)
-Lemma map_to_index_spec base o os effs :
-  map_to_index_action base o = Ok (os, effs) ->
-  (os = [o] /\ effs = []) \/
-  exists a al it vt first rest o' first' rest',
-    lo_args o = [a] /\ a_type a = TMap al it vt /\ lo_assignments o = first :: rest /\
-    os = [o'] /\ lo_name o' = lo_name o /\ lo_comments o' = lo_comments o /\ lo_default o' = lo_default o /\
-    lo_args o' = [mkArg "key" it; mkArg (singularize (a_name a)) vt] /\
-    lo_assignments o' = first' :: rest' /\
-    la_path first' = la_path first ++ [mkPathItem "" (Some (mkPathIndex (Some (mkArg "key" it)) DNil)) vt None false] /\
-    la_method first' = "index" /\ map la_path rest' = map la_path rest /\
-    (forall l x, la_arg first = Some (l, x) -> la_arg first' = Some (l, mkArg (singularize (a_name a)) vt)).
-Proof.
-  unfold map_to_index_action. destruct (lo_args o) as [|a [|a2 r2]] eqn:Ea; try (intros H; inversion H; left; split; reflexivity).
-  destruct (a_type a) eqn:Et; try (intros H; inversion H; left; split; reflexivity).
-  destruct (lo_assignments o) as [|first rest] eqn:Eas; [discriminate|].
-  intros H. inversion H; subst; clear H. right.
-  exists a. do 3 eexists. exists first, rest. do 3 eexists.
-  split; [reflexivity|]. split; [exact Et|]. split; [reflexivity|]. repeat split; try reflexivity.
-  - rewrite map_map. apply map_ext. intros x. apply apply_effects_asg_path.
-  - intros l x Hl. rewrite Hl. reflexivity.
-Qed.
-
-(* unfold_boolean: either nothing happens, or two argument-less options assign true and false
-   to the very path the option assigned first *)
-Lemma unfold_boolean_spec tn fn o os effs :
-  unfold_boolean_action tn fn o = Ok (os, effs) ->
-  effs = [] /\
-  (os = [o] \/
-   exists first rest d1 d2,
-     lo_assignments o = first :: rest /\
-     os = [mkLOpt tn (lo_comments o) [] [] [constant_lasg (la_path first) (DBool true)] d1;
-           mkLOpt fn (lo_comments o) [] [] [constant_lasg (la_path first) (DBool false)] d2]).
-Proof.
-  unfold unfold_boolean_action. destruct (lo_assignments o) as [|first rest]; [discriminate|].
-  destruct (last_item (la_path first)) as [it|]; [|discriminate].
-  destruct (is_bool_scalar (pi_type it)); [|intros H; inversion H; split; [reflexivity|left; reflexivity]].
-  destruct (match lo_default o with
-            | None => Ok (None, None) | Some [] => Panic "index out of range [0] with length 0"
-            | Some (DBool true :: _) => Ok (Some [], None) | Some (_ :: _) => Ok (None, Some []) end) as [[d1 d2]| | |];
-    simpl; try discriminate.
-  intros H. inversion H; subst. split; [reflexivity|]. right. do 4 eexists. split; reflexivity.
-Qed.
-
-(* struct_fields_as_options: every produced option has one argument (the field) and one direct
-   assignment, to the field below the path the option assigned first *)
-Lemma sfa_options_spec ss base explicit o os effs :
-  struct_fields_as_options_action ss base explicit o = Ok (os, effs) ->
-  effs = [] /\
-  (os = [o] \/
-   exists first rest, lo_assignments o = first :: rest /\
-     forall o', In o' os ->
-       exists f cs l, lo_name o' = f_name f /\ lo_comments o' = f_comments f /\ lo_args o' = [mkArg (f_name f) (f_type f)] /\
-         lo_assignments o' = [mkLAsg (la_path first ++ path_from_struct_field f) (Some (l, mkArg (f_name f) (f_type f)))
-                                     DNil None "direct" cs []]).
-Proof.
-  unfold struct_fields_as_options_action. destruct (lo_args o) as [|a0 others]; [intros H; inversion H; split; [reflexivity|left; reflexivity]|].
-  destruct (first_arg_struct ss (a_type a0)) as [ | | | |sa dh fs| | | | | | ]; try (intros H; inversion H; split; [reflexivity|left; reflexivity]).
-  destruct (lo_assignments o) as [|first rest]; [discriminate|].
-  destruct (mapM _ _) as [opts| | |] eqn:Em; simpl; try discriminate.
-  intros H. inversion H; subst. split; [reflexivity|]. right. exists first, rest. split; [reflexivity|].
-  intros o' Ho'. apply mapM_ok_forall2 in Em. destruct (forall2_in_r _ _ _ _ Em Ho') as ([n f] & _ & E). simpl in E.
-  destruct (with_type_constraints _ _) as [cs| | |]; simpl in E; try discriminate. inversion E; subst.
-  exists f, cs, (base ++ [n; 1]). repeat split.
-Qed.
-
-(* struct_fields_as_arguments: every assignment of the result goes to the path the option assigned
-   first (appending an envelope), to one field below it, or is one of the untouched other assignments *)
-Lemma foldM_invariant {A B} (f : A -> B -> res A) (P : A -> Prop) l : forall a a',
-  (forall a x a', P a -> f a x = Ok a' -> P a') -> foldM f l a = Ok a' -> P a -> P a'.
-Proof.
-  induction l as [|x r IH]; intros a a' Hstep H Hp; simpl in H.
-  - inversion H; subst. exact Hp.
-  - destruct (f a x) as [a1| | |] eqn:E; simpl in H; try discriminate. apply (IH _ _ Hstep H). apply (Hstep _ _ _ Hp E).
-Qed.
-
-Lemma sfa_arguments_spec ss base explicit o os effs :
-  struct_fields_as_arguments_action ss base explicit o = Ok (os, effs) ->
-  effs = [] /\
-  (os = [o] \/
-   exists first rest o', lo_assignments o = first :: rest /\ os = [o'] /\ lo_name o' = lo_name o /\ lo_comments o' = lo_comments o /\
-     forall a', In a' (lo_assignments o') ->
-       In a' rest \/ la_path a' = la_path first \/ exists it, la_path a' = la_path first ++ [it] /\ pi_index it = None).
-Proof.
-  unfold struct_fields_as_arguments_action. destruct (lo_args o) as [|a0 others]; [intros H; inversion H; split; [reflexivity|left; reflexivity]|].
-  destruct (first_arg_struct ss (a_type a0)) as [ | | | |sa dh fs| | | | | | ]; try (intros H; inversion H; split; [reflexivity|left; reflexivity]).
-  destruct (lo_assignments o) as [|first rest]; [discriminate|].
-  destruct (last_item (la_path first)) as [lastit|]; [|discriminate].
-  destruct (foldM _ _ _) as [acc| | |] eqn:Ef; simpl; try discriminate.
-  intros H. inversion H; subst; clear H. split; [reflexivity|]. right. do 3 eexists. repeat split.
-  assert (Hinv : Forall (fun a' => exists it, la_path a' = la_path first ++ [it] /\ pi_index it = None) (sa_asgs acc)).
-  { eapply (foldM_invariant _ (fun acc => Forall (fun a' => exists it, la_path a' = la_path first ++ [it] /\ pi_index it = None) (sa_asgs acc)));
-      [|exact Ef|constructor].
-    intros a x a' Hp E. destruct x as [n f]. unfold sfa_field in E.
-    destruct (is_array (pi_type lastit)); [inversion E; subst; exact Hp|].
-    destruct (is_concrete_scalar _).
-    - inversion E; subst. simpl. apply Forall_app. split; [exact Hp|]. constructor; [|constructor]. eexists. split; reflexivity.
-    - destruct (with_type_constraints _ _) as [cs| | |]; simpl in E; try discriminate. inversion E; subst. simpl.
-      apply Forall_app. split; [exact Hp|]. constructor; [|constructor]. eexists. split; reflexivity. }
-  intros a' Ha'. simpl in Ha'.
-  assert (Hcore : In a' (if is_array (pi_type lastit)
-                         then [mkLAsg (la_path first) None DNil (Some (match pi_type lastit with TArray _ v => v | t => t end, sa_env acc)) "append" [] []]
-                         else sa_asgs acc) -> la_path a' = la_path first \/ exists it, la_path a' = la_path first ++ [it] /\ pi_index it = None).
-  { destruct (is_array (pi_type lastit)).
-    - intros [<-|[]]. left. reflexivity.
-    - intros Hin. right. rewrite Forall_forall in Hinv. apply Hinv. exact Hin. }
-  destruct others as [|o2 oo].
-  - right. apply Hcore. exact Ha'.
-  - apply in_app_or in Ha'. destruct Ha' as [Ha'|Ha']; [right; apply Hcore; exact Ha'|left; exact Ha'].
-Qed.
-
-(* disjunction_as_options: every produced option assigns exactly the paths the option assigned,
-   with the same methods *)
-Lemma label_asgs_paths base l : map la_path (label_asgs base l) = map as_path l.
-Proof.
-  unfold label_asgs, mapi. rewrite map_mapi_from. generalize 0. induction l as [|a r IH]; intros n; simpl; [reflexivity|].
-  rewrite IH. destruct a as [p [arg c env] m cs ncs]. reflexivity.
-Qed.
-Lemma label_asgs_methods base l : map la_method (label_asgs base l) = map as_method l.
-Proof.
-  unfold label_asgs, mapi. rewrite map_mapi_from. generalize 0. induction l as [|a r IH]; intros n; simpl; [reflexivity|].
-  rewrite IH. destruct a as [p [arg c env] m cs ncs]. reflexivity.
-Qed.
-Lemma replace_first_using_paths n mk l :
-  (forall a, la_path (mk a) = la_path a /\ la_method (mk a) = la_method a) ->
-  map la_path (replace_first_using n mk l) = map la_path l /\ map la_method (replace_first_using n mk l) = map la_method l.
-Proof.
-  intros Hmk. induction l as [|a r [IH1 IH2]]; simpl; [split; reflexivity|].
-  destruct (la_arg a) as [[l0 x]|]; [destruct (seqb (a_name x) n)|]; simpl; rewrite ?IH1, ?IH2;
-    try (destruct (Hmk a) as [-> ->]); split; reflexivity.
-Qed.
-
-Lemma disjunction_branch_paths base n o idx target name arg dfl mk :
-  (forall c a, la_path (mk c a) = la_path a /\ la_method (mk c a) = la_method a) ->
-  map la_path (lo_assignments (disjunction_branch_option base n o idx target name arg dfl mk)) = map la_path (lo_assignments o) /\
-  map la_method (lo_assignments (disjunction_branch_option base n o idx target name arg dfl mk)) = map la_method (lo_assignments o).
-Proof.
-  intros Hmk. unfold disjunction_branch_option. simpl.
-  destruct (replace_first_using_paths (a_name target) (mk (base ++ [n; 0; 0])) (label_asgs (base ++ [n]) (map erase_asg (lo_assignments o))) (Hmk _)) as [-> ->].
-  rewrite label_asgs_paths, label_asgs_methods, !map_map. split; reflexivity.
-Qed.
-
-Lemma disjunction_as_options_spec ss base idx o os effs :
-  disjunction_as_options_action ss base idx o = Ok (os, effs) ->
-  effs = [] /\ forall o', In o' os ->
-    map la_path (lo_assignments o') = map la_path (lo_assignments o) /\
-    map la_method (lo_assignments o') = map la_method (lo_assignments o).
-Proof.
-  unfold disjunction_as_options_action.
-  assert (Hsame : forall os effs, Ok ([o], @nil effect) = Ok (os, effs) -> effs = [] /\ forall o', In o' os ->
-            map la_path (lo_assignments o') = map la_path (lo_assignments o) /\ map la_method (lo_assignments o') = map la_method (lo_assignments o)).
-  { intros os0 effs0 H. inversion H; subst. split; [reflexivity|]. intros o' [<-|[]]. split; reflexivity. }
-  destruct (lo_args o) as [|a0 others] eqn:Ea; [apply Hsame|].
-  destruct (idx <? 0)%Z; [discriminate|].
-  destruct (nth_error (a0 :: others) (Z.to_nat idx)) as [target|]; [|discriminate].
-  destruct (a_type target) as [da d| | | | |ra rp rn| | | | | ] eqn:Et; try apply Hsame.
-  - intros H. inversion H; subst. split; [reflexivity|]. intros o' Ho'.
-    apply in_mapi_from in Ho'. destruct Ho' as (n & br & _ & ->). apply disjunction_branch_paths. intros c a. split; reflexivity.
-  - destruct (is_struct_generated_from_disjunction _); [|apply Hsame].
-    intros H. inversion H; subst. split; [reflexivity|]. intros o' Ho'.
-    apply in_mapi_from in Ho'. destruct Ho' as (n & f & _ & ->). apply disjunction_branch_paths. intros c a. split; reflexivity.
-Qed.
-
-(* ---------------------------------------------------------------- WT is kept by the rules that cannot break it *)
-
-Definition lasg_ok (ss : schemas) (root : ty) (args : list argument) (a : lassignment) : bool :=
-  assignment_ok ss root args (erase_asg a).
-Definition lopt_ok (ss : schemas) (root : ty) (o : loption) : bool :=
-  forallb (lasg_ok ss root (lo_args o)) (lo_assignments o).
-
-Lemma forallb_map' {A B} (f : A -> B) (p : B -> bool) l : forallb p (map f l) = forallb (fun x => p (f x)) l.
-Proof. induction l as [|x r IH]; simpl; [reflexivity|]. rewrite IH. reflexivity. Qed.
-Lemma forallb_ext' {A} (p q : A -> bool) l : (forall x, p x = q x) -> forallb p l = forallb q l.
-Proof. intros H. induction l as [|x r IH]; simpl; [reflexivity|]. rewrite H, IH. reflexivity. Qed.
-
-Lemma lWT_unfold ss b :
-  WT ss (erase_builder b) =
-  forallb (lasg_ok ss (o_type (lb_for b)) (lc_args (lb_ctor b))) (lc_assignments (lb_ctor b)) &&
-  forallb (lopt_ok ss (o_type (lb_for b))) (lb_options b).
-Proof.
-  unfold WT, erase_builder, erase_ctor. simpl. rewrite !forallb_map'. f_equal.
-  apply forallb_ext'. intros o. unfold lopt_ok, erase_option. simpl. rewrite forallb_map'. reflexivity.
-Qed.
-
-
-
-Lemma resolve_to_type_nonref fuel ss t : is_ref t = false -> resolve_to_type fuel ss t = Ok t.
-Proof. destruct fuel; destruct t; simpl; intros H; try reflexivity; discriminate. Qed.
-
-Lemma resolve_total_nonref ss t : is_ref t = false -> resolve_total ss t = t.
-Proof. intros H. unfold resolve_total. rewrite resolve_to_type_nonref by exact H. reflexivity. Qed.
-
-Lemma resolve_total_ref ss a p n ob :
-  locate_object ss p n = Some ob -> is_ref (o_type ob) = false -> resolve_total ss (TRef a p n) = o_type ob.
-Proof.
-  intros Hl Hn. unfold resolve_total, res_fuel. simpl. rewrite Hl. rewrite resolve_to_type_nonref by exact Hn. reflexivity.
-Qed.
-
-Lemma ty_eqb_nd_refl t : ty_eqb_nd t t = true.
-Proof. unfold ty_eqb_nd. apply ty_eqb_refl. Qed.
-
-Lemma locate_by_object_some bs p n rb :
-  locate_by_object bs p n = Some rb -> In rb bs /\ o_selfpkg (lb_for rb) = p /\ o_selfname (lb_for rb) = n.
-Proof.
-  unfold locate_by_object. intros H. apply find_some in H. destruct H as [Hin Hb]. apply andb_true_iff in Hb.
-  destruct Hb as [H1 H2]. apply String.eqb_eq in H1. apply String.eqb_eq in H2. auto.
-Qed.
-
-(* Builder.MakePath returns a chain of existing fields with the recorded types *)
-Lemma make_path_go_ok ss bs : lconsistent ss bs -> forall parts cur acc p,
-  make_path_go bs cur parts acc = Ok p ->
-  exists suffix, p = acc ++ suffix /\ path_ok_go ss cur suffix = true /\ path_args suffix = [] /\ List.length suffix = List.length parts.
-Proof.
-  intros Hc. induction parts as [|part rest IH]; intros cur acc p H; simpl in H.
-  - inversion H; subst. exists []. rewrite app_nil_r. repeat split.
-  - destruct (match cur with
-              | TRef _ p0 n => match locate_by_object bs p0 n with Some rb => Ok (o_type (lb_for rb)) | None => Err "reference could not be resolved" end
-              | _ => Ok cur end) as [cur1| | |] eqn:E1; simpl in H; try discriminate.
-    destruct cur1 as [ | | | |sa dh fs| | | | | | ]; try discriminate.
-    destruct (field_by_name fs part) as [f|] eqn:Ef; [|discriminate].
-    destruct (IH _ _ _ H) as (suffix & Hp & Hok & Hargs & Hlen).
-    exists (mkPathItem part None (f_type f) None false :: suffix).
-    split; [rewrite Hp, <- app_assoc; reflexivity|]. split; [|split; [exact Hargs|simpl; rewrite Hlen; reflexivity]].
-    assert (Hres : resolve_total ss cur = TStruct sa dh fs).
-    { destruct cur; try (inversion E1; subst; apply resolve_total_nonref; reflexivity).
-      destruct (locate_by_object bs pkg name) as [rb|] eqn:El; [|discriminate].
-      assert (E1' : o_type (lb_for rb) = TStruct sa dh fs) by congruence.
-      destruct (locate_by_object_some _ _ _ _ El) as (Hin & <- & <-).
-      rewrite (resolve_total_ref ss a _ _ (lb_for rb) (Hc rb Hin)); [exact E1'|rewrite E1'; reflexivity]. }
-    simpl. rewrite Hres, Ef, ty_eqb_nd_refl. exact Hok.
-Qed.
-
-Lemma split_dots_acc_nonempty s cur : split_dots_acc s cur <> [].
-Proof. revert cur. induction s as [|c r IH]; intros cur; simpl; [discriminate|]. destruct (Ascii.eqb c "."%char); [discriminate|apply IH]. Qed.
-
-Lemma make_path_ok ss bs b s p : lconsistent ss bs -> make_path bs b s = Ok p ->
-  path_ok ss (o_type (lb_for b)) p = true /\ path_args p = [].
-Proof.
-  intros Hc. unfold make_path. destruct (seqb s ""); [discriminate|]. intros H.
-  destruct (make_path_go_ok ss bs Hc _ _ _ _ H) as (suffix & Hp & Hok & Hargs & Hlen). simpl in Hp. subst p.
-  split; [|exact Hargs]. unfold path_ok. destruct suffix as [|it r]; [|exact Hok].
-  exfalso. simpl in Hlen. unfold split_dots in Hlen. pose proof (split_dots_acc_nonempty s EmptyString) as Hne.
-  destruct (split_dots_acc s EmptyString); [apply Hne; reflexivity|discriminate].
-Qed.
-
-(* what WT looks at: the object, the constructor and the options, up to labels *)
-Lemma lopt_ok_erased ss root o :
-  lopt_ok ss root o = forallb (assignment_ok ss root (lo_args o)) (map erase_asg (lo_assignments o)).
-Proof. unfold lopt_ok, lasg_ok. rewrite forallb_map'. reflexivity. Qed.
-
-Lemma lopt_ok_ext ss root o o' :
-  lo_args o' = lo_args o -> map erase_asg (lo_assignments o') = map erase_asg (lo_assignments o) -> lopt_ok ss root o' = lopt_ok ss root o.
-Proof. intros H1 H2. rewrite !lopt_ok_erased, H1, H2. reflexivity. Qed.
-
-Lemma lWT_ext ss b b' :
-  lb_for b' = lb_for b -> lb_ctor b' = lb_ctor b -> lb_options b' = lb_options b -> lWT ss b -> lWT ss b'.
-Proof. unfold lWT. rewrite !lWT_unfold. intros -> -> ->. auto. Qed.
-
-Lemma lWT_options ss b os :
-  lWT ss b -> forallb (lopt_ok ss (o_type (lb_for b))) os = true -> lWT ss (set_options b os).
-Proof.
-  unfold lWT. rewrite !lWT_unfold. simpl. intros H Ho. apply andb_true_iff in H. destruct H as [H1 _]. rewrite H1, Ho. reflexivity.
-Qed.
-
-Lemma lWT_options_ok ss b : lWT ss b -> forallb (lopt_ok ss (o_type (lb_for b))) (lb_options b) = true.
-Proof. unfold lWT. rewrite lWT_unfold. intros H. apply andb_true_iff in H. apply H. Qed.
-
-Lemma lWT_deep_copy ss base b : lWT ss b -> lWT ss (builder_deep_copy base b).
-Proof. unfold lWT. rewrite erase_builder_deep_copy. auto. Qed.
-
-Lemma forallb_filter_sub {A} (p q : A -> bool) l : forallb p l = true -> forallb p (filter q l) = true.
-Proof.
-  rewrite !forallb_forall. intros H x Hx. apply filter_In in Hx. apply H. apply Hx.
-Qed.
-
-(* initialize *)
-Lemma initialize_builder_wt ss bs set b b' :
-  lconsistent ss bs -> initialize_builder bs set b = Ok b' -> lWT ss b -> lWT ss b' /\ lb_for b' = lb_for b.
-Proof.
-  intros Hc H Hw. unfold initialize_builder in H. destruct (mapM _ set) as [asgs| | |] eqn:Em; simpl in H; try discriminate.
-  inversion H; subst. split; [|reflexivity]. unfold lWT in *. rewrite lWT_unfold in *. simpl.
-  apply andb_true_iff in Hw. destruct Hw as [H1 H2]. rewrite H2, andb_true_r. rewrite forallb_app, H1. simpl.
-  apply mapM_ok_forall2 in Em. apply forallb_forall. intros a Ha.
-  destruct (forall2_in_r _ _ _ _ Em Ha) as ([ps v] & _ & E). simpl in E.
-  destruct (make_path bs b ps) as [p| | |] eqn:Ep; simpl in E; try discriminate. inversion E; subst.
-  destruct (make_path_ok _ _ _ _ _ Hc Ep) as [Hok Hargs].
-  unfold lasg_ok, assignment_ok, erase_asg, constant_lasg, assignment_args. simpl. rewrite Hok, Hargs. reflexivity.
-Qed.
-
-Lemma forall_mapM_if {A} (P : A -> Prop) (sel : A -> bool) (f : A -> res A) l l' :
-  mapM (fun x => if sel x then f x else Ok x) l = Ok l' -> Forall P l ->
-  (forall x y, In x l -> P x -> f x = Ok y -> P y) -> Forall P l'.
-Proof.
-  intros H Hp Hf. apply mapM_ok_forall2 in H. apply Forall_forall. intros y Hy.
-  destruct (forall2_in_r _ _ _ _ H Hy) as (x & Hx & E). rewrite Forall_forall in Hp.
-  destruct (sel x); [apply (Hf x y Hx (Hp x Hx) E)|inversion E; subst; apply Hp; exact Hx].
-Qed.
-
-(* every rule of the safe group keeps: each builder well-typed, and each builder's object the schemas' *)
-Lemma wt_safe_brule_preserves ss t r bs bs' :
-  wt_safe_brule r = true -> apply_builder_rule ss t r bs = Ok bs' ->
-  lconsistent ss bs -> Forall (lWT ss) bs -> lconsistent ss bs' /\ Forall (lWT ss) bs'.
-Proof.
-  intros Hsafe H Hc Hw.
-  assert (Hboth : Forall (fun b => lWT ss b /\ locate_object ss (o_selfpkg (lb_for b)) (o_selfname (lb_for b)) = Some (lb_for b)) bs).
-  { apply Forall_forall. intros b Hb. rewrite Forall_forall in Hw. split; [apply Hw; exact Hb|apply Hc; exact Hb]. }
-  cut (Forall (fun b => lWT ss b /\ locate_object ss (o_selfpkg (lb_for b)) (o_selfname (lb_for b)) = Some (lb_for b)) bs').
-  { intros Hf. rewrite Forall_forall in Hf. split; [intros b Hb; apply Hf; exact Hb|apply Forall_forall; intros b Hb; apply Hf; exact Hb]. }
-  destruct r as [s|s n|s src under excl ren|s c|s ps|s n excl|s set|s names|s o|s f]; try discriminate; cbn [apply_builder_rule] in H.
-  - inversion H; subst. unfold omit_rule. rewrite Forall_forall in *. intros b Hb. apply filter_In in Hb. apply Hboth. apply Hb.
-  - inversion H; subst. unfold rename_rule. rewrite Forall_forall in *. intros b' Hb'. apply in_map_iff in Hb'.
-    destruct Hb' as (b & <- & Hb). destruct (Hboth b Hb) as [H1 H2]. destruct (sel_builder ss s b); [|split; assumption].
-    split; [apply (lWT_ext ss b); try reflexivity; exact H1|exact H2].
-  - inversion H; subst. unfold properties_rule. rewrite Forall_forall in *. intros b' Hb'. apply in_map_iff in Hb'.
-    destruct Hb' as (b & <- & Hb). destruct (Hboth b Hb) as [H1 H2]. destruct (sel_builder ss s b); [|split; assumption].
-    split; [apply (lWT_ext ss b); try reflexivity; exact H1|exact H2].
-  - inversion H; subst. unfold duplicate_rule. apply Forall_app. split; [exact Hboth|].
-    rewrite Forall_forall in *. intros d Hd. apply in_flat_map in Hd. destruct Hd as ([i b] & Hib & Hd). simpl in Hd.
-    destruct (sel_builder ss s b); [|contradiction]. destruct Hd as [<-|[]].
-    assert (Hb : In b bs).
-    { unfold mapi in Hib. apply in_mapi_from in Hib. destruct Hib as (i' & b0 & Hb0 & E). inversion E; subst. exact Hb0. }
-    destruct (Hboth b Hb) as [H1 H2].
-    assert (Hcopy : lWT ss (set_name (builder_deep_copy [t; i] b) n)).
-    { apply (lWT_ext ss (builder_deep_copy [t; i] b)); try reflexivity. apply lWT_deep_copy. exact H1. }
-    destruct excl as [|e ee]; [split; [exact Hcopy|exact H2]|]. split; [|exact H2].
-    apply lWT_options; [exact Hcopy|]. apply forallb_filter_sub. apply lWT_options_ok. exact Hcopy.
-  - unfold initialize_rule in H. apply (forall_mapM_if _ _ _ _ _ H Hboth). intros b b' Hb [H1 H2] E.
-    destruct (initialize_builder_wt _ _ _ _ _ Hc E H1) as [Hw' Hfor]. split; [exact Hw'|rewrite Hfor; exact H2].
-  - unfold add_factory_rule in H. apply (forall_mapM_if _ _ _ _ _ H Hboth). intros b b' Hb [H1 H2] E.
-    destruct (lc_args (lb_ctor b)); [|discriminate]. inversion E; subst. split; [apply (lWT_ext ss b); try reflexivity; exact H1|exact H2].
-Qed.
-
-(* safe option actions: what they return, and that they write through nothing *)
-Lemma wt_safe_action_result ss t base act b o root :
-  wt_safe_action act = true -> lopt_ok ss root o = true ->
-  exists os, run_action ss t base act b o = Ok (os, []) /\ forallb (lopt_ok ss root) os = true.
-Proof.
-  intros Hs Ho. destruct act; try discriminate; simpl.
-  - exists []. split; reflexivity.
-  - eexists. split; [reflexivity|]. simpl. rewrite andb_true_r. rewrite <- Ho. apply lopt_ok_ext; reflexivity.
-  - eexists. split; [reflexivity|]. simpl. rewrite Ho. simpl. rewrite andb_true_r. rewrite <- Ho. apply lopt_ok_ext; [reflexivity|].
-    simpl. rewrite erase_label_asgs. reflexivity.
-  - eexists. split; [reflexivity|]. simpl. rewrite andb_true_r. rewrite <- Ho. apply lopt_ok_ext; reflexivity.
-Qed.
-
-Lemma process_options_pure_safe_wt ss t i r b os' :
-  wt_safe_action (or_action r) = true -> process_options_pure ss t i r b = Ok os' ->
-  forallb (lopt_ok ss (o_type (lb_for b))) (lb_options b) = true -> forallb (lopt_ok ss (o_type (lb_for b))) os' = true.
-Proof.
-  intros Hs H Ho. rewrite process_options_pure_unfold in H.
-  destruct (mapM _ _) as [outs| | |] eqn:Em; simpl in H; try discriminate. inversion H; subst. clear H.
-  apply mapM_ok_forall2 in Em. apply forallb_forall. intros o' Ho'. apply in_concat in Ho'. destruct Ho' as (out & Hout & Hin).
-  destruct (forall2_in_r _ _ _ _ Em Hout) as ([k o] & Hko & E). unfold option_step in E. simpl in E.
-  assert (Hok : lopt_ok ss (o_type (lb_for b)) o = true).
-  { rewrite forallb_forall in Ho. apply Ho. unfold mapi in Hko. apply in_mapi_from in Hko. destruct Hko as (k' & o0 & Ho0 & E0). inversion E0; subst. exact Ho0. }
-  destruct (sel_option (or_sel r) b o).
-  - destruct (wt_safe_action_result ss t [t; i; k] (or_action r) b o _ Hs Hok) as (os & Er & Hos). rewrite Er in E. simpl in E.
-    inversion E; subst. rewrite forallb_forall in Hos. apply Hos. exact Hin.
-  - inversion E; subst. destruct Hin as [<-|[]]. exact Hok.
-Qed.
-
-Lemma apply_option_rule_pure_safe ss t r bs bs' :
-  wt_safe_action (or_action r) = true -> apply_option_rule_pure ss t r bs = Ok bs' ->
-  lconsistent ss bs -> Forall (lWT ss) bs -> lconsistent ss bs' /\ Forall (lWT ss) bs'.
-Proof.
-  intros Hs H Hc Hw. split.
-  - pose proof (apply_option_rule_pure_headers _ _ _ _ _ H) as Hh. intros b' Hb'.
-    destruct (forall2_in_r _ _ _ _ Hh Hb') as (b & Hb & (Hf & _)). rewrite <- Hf. apply Hc. exact Hb.
-  - unfold apply_option_rule_pure in H. apply mapM_ok_forall2 in H. apply Forall_forall. intros b' Hb'.
-    destruct (forall2_in_r _ _ _ _ H Hb') as ([i b] & Hib & E). simpl in E.
-    destruct (process_options_pure ss t i r b) as [os'| | |] eqn:Ep; simpl in E; try discriminate. inversion E; subst.
-    assert (Hb : In b bs).
-    { unfold mapi in Hib. apply in_mapi_from in Hib. destruct Hib as (i' & b0 & Hb0 & E0). inversion E0; subst. exact Hb0. }
-    rewrite Forall_forall in Hw. apply lWT_options; [apply Hw; exact Hb|].
-    apply (process_options_pure_safe_wt _ _ _ _ _ _ Hs Ep). apply lWT_options_ok. apply Hw. exact Hb.
-Qed.
-
-(* a safe action emits no write: the flag cannot move *)
-Lemma wt_safe_action_no_effects ss t base act b o os effs :
-  wt_safe_action act = true -> run_action ss t base act b o = Ok (os, effs) -> effs = [].
-Proof. intros Hs. destruct act; try discriminate; simpl; intros H; inversion H; reflexivity. Qed.
-
-Lemma process_options_safe_flag ss t i r b fuel : wt_safe_action (or_action r) = true -> forall k c processed remaining c' out,
-  process_options ss t i r b k c processed remaining fuel = Ok (c', out) -> cx_flag c' = cx_flag c.
-Proof.
-  intros Hs. induction fuel as [|f IH]; intros k c processed remaining c' out H.
-  - destruct remaining; simpl in H; [inversion H; subst; reflexivity|discriminate].
-  - destruct remaining as [|o rest]; simpl in H; [inversion H; subst; reflexivity|].
-    destruct (sel_option (or_sel r) b o).
-    + destruct (run_action ss t [t; i; k] (or_action r) b o) as [[newopts effs]| | |] eqn:Er; simpl in H; try discriminate.
-      rewrite (wt_safe_action_no_effects _ _ _ _ _ _ _ _ Hs Er) in H. apply IH in H. rewrite H. simpl. apply orb_false_r.
-    + apply IH in H. exact H.
-Qed.
-
-Lemma apply_option_rule_go_safe_flag ss t r fuel : wt_safe_action (or_action r) = true -> forall done rest flag bs' fl,
-  apply_option_rule_go ss t r done rest flag fuel = Ok (bs', fl) -> fl = flag.
-Proof.
-  intros Hs. induction fuel as [|f IH]; intros done rest flag bs' fl H.
-  - destruct rest; simpl in H; [inversion H; subst; reflexivity|discriminate].
-  - destruct rest as [|b rest']; simpl in H; [inversion H; subst; reflexivity|].
-    destruct (process_options _ _ _ _ _ _ _ _ _ _) as [[c processed]| | |] eqn:Ep; simpl in H; try discriminate.
-    apply IH in H. rewrite H. apply (process_options_safe_flag _ _ _ _ _ _ Hs) in Ep. exact Ep.
-Qed.
-
-(* sequences of safe rules, as the rewriter applies them (shared cells included: nothing writes) *)
-Lemma wt_safe_builder_rules ss : forall rs t bs bs',
-  forallb wt_safe_brule rs = true -> apply_builder_rules ss t rs bs = Ok bs' ->
-  lconsistent ss bs -> Forall (lWT ss) bs -> lconsistent ss bs' /\ Forall (lWT ss) bs'.
-Proof.
-  induction rs as [|r rest IH]; intros t bs bs' Hs H Hc Hw; simpl in H.
-  - inversion H; subst. split; assumption.
-  - simpl in Hs. apply andb_true_iff in Hs. destruct Hs as [Hs1 Hs2].
-    destruct (apply_builder_rule ss t r bs) as [bs1| | |] eqn:E; simpl in H; try discriminate.
-    destruct (wt_safe_brule_preserves _ _ _ _ _ Hs1 E Hc Hw) as [Hc1 Hw1]. apply (IH _ _ _ Hs2 H Hc1 Hw1).
-Qed.
-
-Lemma wt_safe_option_rules_go ss : forall rs t bs bs' fl,
-  forallb (fun r => wt_safe_action (or_action r)) rs = true -> apply_option_rules_go true ss t rs bs false = Ok (bs', fl) ->
-  lconsistent ss bs -> Forall (lWT ss) bs -> fl = false /\ lconsistent ss bs' /\ Forall (lWT ss) bs'.
-Proof.
-  induction rs as [|r rest IH]; intros t bs bs' fl Hs H Hc Hw; simpl in H.
-  - inversion H; subst. repeat split; assumption.
-  - simpl in Hs. apply andb_true_iff in Hs. destruct Hs as [Hs1 Hs2].
-    destruct (apply_option_rule ss t r bs false) as [[bs1 fl1]| | |] eqn:E; simpl in H; try discriminate.
-    assert (fl1 = false) by (unfold apply_option_rule in E; apply (apply_option_rule_go_safe_flag _ _ _ _ Hs1 _ _ _ _ _ E)). subst fl1.
-    destruct (apply_option_rule_pure_agrees _ _ _ _ _ _ E) as (_ & Ep).
-    destruct (apply_option_rule_pure_safe _ _ _ _ _ Hs1 Ep Hc Hw) as [Hc1 Hw1]. apply (IH _ _ _ _ Hs2 H Hc1 Hw1).
-Qed.
-
-Lemma forallb_flat_map_sub {A B} (p : B -> bool) (q : A -> bool) (f : A -> list B) l :
-  (forall x, In x l -> forallb p (f x) = true) -> forallb p (flat_map (fun x => if q x then f x else []) l) = true.
-Proof.
-  intros H. apply forallb_forall. intros y Hy. apply in_flat_map in Hy. destruct Hy as (x & Hx & Hy).
-  destruct (q x); [|contradiction]. specialize (H x Hx). rewrite forallb_forall in H. apply H. exact Hy.
-Qed.
-
-Lemma wt_safe_rules_for lrs l : wt_safe_rules lrs = true ->
-  forallb wt_safe_brule (builder_rules_for l lrs) = true /\ forallb (fun r => wt_safe_action (or_action r)) (option_rules_for l lrs) = true.
-Proof.
-  unfold wt_safe_rules, builder_rules_for, option_rules_for. intros H. rewrite forallb_forall in H. split.
-  - apply forallb_flat_map_sub. intros lr Hlr. specialize (H lr Hlr). apply andb_true_iff in H. apply H.
-  - apply forallb_flat_map_sub. intros lr Hlr. specialize (H lr Hlr). apply andb_true_iff in H. apply H.
-Qed.
-
-Lemma wt_safe_language ss lrs l t bs bs' fl :
-  wt_safe_rules lrs = true -> apply_language true ss t lrs l bs false = Ok (bs', fl) ->
-  lconsistent ss bs -> Forall (lWT ss) bs -> fl = false /\ lconsistent ss bs' /\ Forall (lWT ss) bs'.
-Proof.
-  intros Hs H Hc Hw. destruct (wt_safe_rules_for lrs l Hs) as [Hsb Hso]. unfold apply_language, apply_option_rules in H.
-  destruct (apply_builder_rules ss t (builder_rules_for l lrs) bs) as [bs1| | |] eqn:E1; simpl in H; try discriminate.
-  destruct (wt_safe_builder_rules _ _ _ _ _ Hsb E1 Hc Hw) as [Hc1 Hw1].
-  destruct (apply_option_rules_go true ss _ _ bs1 false) as [[bs2 fl2]| | |] eqn:E2; simpl in H; try discriminate.
-  destruct (wt_safe_option_rules_go _ _ _ _ _ _ Hso E2 Hc1 Hw1) as (Hf & Hc2 & Hw2). inversion H; subst.
-  split; [reflexivity|]. split.
-  - intros b Hb. apply filter_In in Hb. apply Hc2. apply Hb.
-  - rewrite Forall_forall in *. intros b Hb. apply filter_In in Hb. apply Hw2. apply Hb.
-Qed.
-
-Theorem wt_safe_rules_preserve_WT ss lrs lang bs lbs' fl :
-  wt_safe_rules lrs = true -> apply_to_rules true ss lrs lang bs = Ok (lbs', fl) ->
-  lconsistent ss bs -> Forall (lWT ss) bs -> fl = false /\ lconsistent ss lbs' /\ Forall (lWT ss) lbs'.
-Proof.
-  intros Hs H Hc Hw. unfold apply_to_rules in H.
-  destruct (apply_language true ss 1 lrs all_languages bs false) as [[bs1 fl1]| | |] eqn:E1; simpl in H; try discriminate.
-  destruct (wt_safe_language _ _ _ _ _ _ _ Hs E1 Hc Hw) as (-> & Hc1 & Hw1).
-  apply (wt_safe_language _ _ _ _ _ _ _ Hs H Hc1 Hw1).
-Qed.
-
-
 (* ---------------------------------------------------------------- reflexivity of the decidable equalities on builders *)
 Lemma opt_eqb_refl {A} (e : A -> A -> bool) o : (forall x, e x x = true) -> opt_eqb e o o = true.
 Proof. intros H. destruct o; simpl; auto. Qed.
@@ -1237,188 +359,272 @@ Proof.
   apply leqb_refl_all. intros c. unfold optioncall_eqb. rewrite seqb_refl'. simpl. apply leqb_refl_all. apply ocparam_eqb_refl.
 Qed.
 
-(* ---------------------------------------------------------------- the statements at the level of rule files *)
-Theorem unselected_unchanged_partial_proof ss files lang bs lrs lbs' b kept :
-  rewriter_from files = Ok lrs ->
-  apply_to_l true ss files lang bs = Ok (lbs', false) ->
-  In b (label_builders 0 bs) ->
-  (forall r, In r (builder_rules_for all_languages lrs ++ builder_rules_for lang lrs) -> sel_builder ss (brule_selector r) b = false) ->
-  (forall o, In o kept -> In o (lb_options b)) ->
-  (forall r o, In r (option_rules_for all_languages lrs ++ option_rules_for lang lrs) -> In o kept -> sel_option (or_sel r) b o = false) ->
-  kept <> [] ->
-  exists b', In b' lbs' /\ lsame_but_options b b' /\ forall o, In o kept -> In o (lb_options b').
-Proof.
-  intros Hl H. unfold apply_to_l in H. destruct (negb (aliases_acyclic ss)); [discriminate|]. rewrite Hl in H. simpl in H.
-  apply (unselected_unchanged_rules _ _ _ _ _ _ _ H).
-Qed.
-
-Lemma lWT_label_builders ss t bs : WTs ss bs = true -> Forall (lWT ss) (label_builders t bs).
-Proof.
-  intros H. apply Forall_forall. intros b Hb. unfold label_builders, mapi in Hb. apply in_mapi_from in Hb.
-  destruct Hb as (i & x & Hx & ->). unfold lWT. rewrite erase_label_builder. unfold WTs in H. rewrite forallb_forall in H. apply H. exact Hx.
-Qed.
-
-Lemma WTs_erase ss lbs : Forall (lWT ss) lbs -> WTs ss (erase_builders lbs) = true.
-Proof.
-  intros H. unfold WTs, erase_builders. rewrite forallb_map'. apply forallb_forall. intros b Hb. rewrite Forall_forall in H. apply H. exact Hb.
-Qed.
-
-Theorem rules_preserve_WT_partial_proof ss files lang bs lrs bs' :
-  rewriter_from files = Ok lrs -> wt_safe_rules lrs = true ->
-  lconsistent ss (label_builders 0 bs) -> WTs ss bs = true ->
-  apply_to ss files lang bs = Ok bs' -> WTs ss bs' = true /\ interference ss files lang bs = false.
-Proof.
-  intros Hl Hs Hc Hw H. unfold apply_to in H. unfold interference.
-  destruct (apply_to_l true ss files lang bs) as [[lbs' fl]| | |] eqn:E; simpl in H; try discriminate. inversion H; subst.
-  unfold apply_to_l in E. destruct (negb (aliases_acyclic ss)); [discriminate|]. rewrite Hl in E. simpl in E.
-  destruct (wt_safe_rules_preserve_WT _ _ _ _ _ _ Hs E Hc (lWT_label_builders _ _ _ Hw)) as (Hf & _ & Hw').
-  split; [apply WTs_erase; exact Hw'|exact Hf].
-Qed.
-
-(* ---------------------------------------------------------------- the unrestricted statements fail on the model: witnesses *)
-Definition w_str : ty := TScalar A0 KString DNil [].
-Definition w_meta : smeta := {| m_kind := "" ; m_variant := "" ; m_identifier := "" |}.
-(* alpha.Foo { tags []string ; name string(minLength 1) }   alpha.Bar { foo Foo ; id string } *)
-Definition w_schemas : schemas :=
-  [mkSchema "alpha" w_meta "" ty_zero
-     [("Foo", mkObject "Foo" [] (TStruct A0 [] [mkField "tags" [] (TArray A0 w_str) true;
-                                                 mkField "name" [] (TScalar A0 KString DNil [{| c_op := "minLength" ; c_args := [DInt "int64" 1] |}]) true])
-                       "alpha" "Foo");
-      ("Bar", mkObject "Bar" [] (TStruct A0 [] [mkField "foo" [] (TRef A0 "alpha" "Foo") true; mkField "id" [] w_str true]) "alpha" "Bar")]].
-Definition w_nosel : ybsel := mkYBSel None None None None.
-Definition w_osel (by_builder : string) : yosel := mkYOSel None (Some by_builder) None.
-(* merge Foo's options into Bar under `foo`, then turn Bar.tags into an append *)
-Definition w_files_shared : list vfile :=
-  [mkVFile "all" "alpha" [[YBMergeInto "Bar" "Foo" "foo" [] []]] [[YOArrayToAppend (w_osel "Bar.tags")]]].
-(* rename the argument of Foo.name, an option whose assignment carries a constraint *)
-Definition w_files_constraint : list vfile :=
-  [mkVFile "all" "alpha" [] [[YORenameArguments (w_osel "Foo.name") ["title"]]]].
-(* promote Foo.tags to the constructor, then turn the option into an append *)
-Definition w_files_promote : list vfile :=
-  [mkVFile "all" "alpha" [[YBPromote (mkYBSel (Some "Foo") None None None) ["tags"]]] [[YOArrayToAppend (w_osel "Foo.tags")]]].
-
-Definition w_before : list builder := match from_ast w_schemas with Ok bs => bs | _ => [] end.
-
-Definition wt_witness (files : list vfile) : bool :=
-  consistent w_schemas w_before && WTs w_schemas w_before && files_wf files &&
-  match apply_to w_schemas files "go" w_before with Ok bs' => negb (WTs w_schemas bs') | _ => false end.
-
-Lemma wt_witness_shared : wt_witness w_files_shared = true /\ interference w_schemas w_files_shared "go" w_before = true.
-Proof. vm_compute. split; reflexivity. Qed.
-Lemma wt_witness_constraint : wt_witness w_files_constraint = true /\ interference w_schemas w_files_constraint "go" w_before = false.
-Proof. vm_compute. split; reflexivity. Qed.
-Lemma wt_witness_promote : wt_witness w_files_promote = true /\ interference w_schemas w_files_promote "go" w_before = true.
-Proof. vm_compute. split; reflexivity. Qed.
-
-Theorem rules_preserve_WT_refuted_proof :
-  ~ (forall ss files lang bs bs',
-       consistent ss bs = true -> WTs ss bs = true -> files_wf files = true ->
-       apply_to ss files lang bs = Ok bs' -> WTs ss bs' = true).
-Proof.
-  intros H. destruct wt_witness_constraint as [Hw _]. unfold wt_witness in Hw.
-  destruct (apply_to w_schemas w_files_constraint "go" w_before) as [bs'| | |] eqn:E;
-    repeat (apply andb_true_iff in Hw; destruct Hw as [Hw ?]); try discriminate.
-  specialize (H w_schemas w_files_constraint "go" w_before bs').
-  rewrite H in *; try assumption; discriminate.
-Qed.
-
-(* frame: Foo is selected by no rule, yet its option `tags` is rewritten *)
-Definition frame_witness : bool :=
-  match rewriter_from w_files_shared, apply_to w_schemas w_files_shared "go" w_before with
-  | Ok lrs, Ok bs' => consistent w_schemas w_before && WTs w_schemas w_before && negb (frame_ok w_schemas lrs "go" w_before bs')
-  | _, _ => false
-  end.
-Lemma frame_witness_true : frame_witness = true.
-Proof. vm_compute. reflexivity. Qed.
-
-Theorem unselected_unchanged_refuted_proof :
-  ~ (forall ss files lang bs lrs bs',
-       rewriter_from files = Ok lrs -> consistent ss bs = true -> WTs ss bs = true ->
-       apply_to ss files lang bs = Ok bs' -> frame_ok ss lrs lang bs bs' = true).
-Proof.
-  intros H. pose proof frame_witness_true as Hw. unfold frame_witness in Hw.
-  destruct (rewriter_from w_files_shared) as [lrs| | |] eqn:El; try discriminate.
-  destruct (apply_to w_schemas w_files_shared "go" w_before) as [bs'| | |] eqn:E; try discriminate.
-  apply andb_true_iff in Hw. destruct Hw as [Hw Hn]. apply andb_true_iff in Hw. destruct Hw as [Hc Hwt].
-  rewrite (H w_schemas w_files_shared "go" w_before lrs bs' El Hc Hwt E) in Hn. discriminate.
-Qed.
-
 (* ---------------------------------------------------------------- the frame checker the correspondence evaluates
-   is implied by the frame theorem: without interference, frame_ok holds of the model's result *)
-Lemma sel_builder_hdr ss s a b : lb_for a = lb_for b -> lb_name a = lb_name b -> sel_builder ss s a = sel_builder ss s b.
-Proof. intros Hf Hn. destruct s; simpl; rewrite ?Hf, ?Hn; reflexivity. Qed.
-Lemma sel_option_hdr s a b o o' :
-  lb_for a = lb_for b -> lb_pkg a = lb_pkg b -> lb_name a = lb_name b -> lo_name o = lo_name o' -> sel_option s a o = sel_option s b o'.
-Proof. intros Hf Hp Hn Ho. destruct s; simpl; rewrite ?Hf, ?Hn, ?Hp, ?Ho; reflexivity. Qed.
-
-Lemma lsame_erase_same x y : lsame_but_options x y -> same_but_options (erase_builder x) (erase_builder y) = true.
+   holds of the model's result, for every sequence of rules *)
+Lemma same_header_checked x y : same_header x y -> same_but_options x y = true.
 Proof.
-  intros (Hf & Hp & Hn & Hps & Hc & Hfa). unfold same_but_options, erase_builder. simpl.
-  rewrite Hf, Hp, Hn, Hps, Hc, Hfa.
+  intros (Hf & Hp & Hn & Hps & Hc & Hfa). unfold same_but_options. rewrite Hf, Hp, Hn, Hps, Hc, Hfa.
   rewrite object_eqb_refl, !seqb_refl', (leqb_refl_all field_eqb _ field_eqb_refl), constructor_eqb_refl,
     (leqb_refl_all factory_eqb _ factory_eqb_refl). reflexivity.
 Qed.
 
-Lemma in_mapi_from_of {A B} (f : nat -> A -> B) x l : In x l -> forall n, exists i, In (f i x) (mapi_from f n l).
+Theorem frame_checker_sound ss lrs lang bs bs' :
+  apply_to_rules ss lrs lang bs = Ok bs' -> frame_ok ss lrs lang bs bs' = true.
 Proof.
-  induction l as [|y r IH]; intros Hin n; [contradiction|].
-  destruct Hin as [->|Hin]; [exists n; left; reflexivity|]. destruct (IH Hin (S n)) as (k & Hk). exists k. right. exact Hk.
-Qed.
-
-Lemma map_filter_comp {A B} (f : A -> B) (p : B -> bool) l : map f (filter (fun x => p (f x)) l) = filter p (map f l).
-Proof. induction l as [|x r IH]; simpl; [reflexivity|]. destruct (p (f x)); simpl; rewrite IH; reflexivity. Qed.
-
-Theorem frame_checker_sound ss files lang bs lrs lbs' :
-  rewriter_from files = Ok lrs -> apply_to_l true ss files lang bs = Ok (lbs', false) ->
-  frame_ok ss lrs lang bs (erase_builders lbs') = true.
-Proof.
-  intros Hl H. unfold frame_ok, rules_in_order.
+  intros H. unfold frame_ok, rules_in_order.
   set (brs := builder_rules_for all_languages lrs ++ builder_rules_for lang lrs).
   set (ors := option_rules_for all_languages lrs ++ option_rules_for lang lrs).
   apply forallb_forall. intros b Hb.
   destruct (builder_never_selected ss brs b) eqn:Ens; [|reflexivity].
   destruct (filter (option_never_selected ors b) (b_options b)) as [|o0 kk] eqn:Ek; [reflexivity|].
-  destruct (in_mapi_from_of (fun i x => label_builder [0; i] x) b bs Hb 0) as (i & Hi).
-  set (lb := label_builder [0; i] b) in *.
-  assert (Eb : erase_builder lb = b) by apply erase_label_builder.
-  set (lkept := filter (fun lo => option_never_selected ors b (erase_option lo)) (lb_options lb)).
-  assert (Ekept : map erase_option lkept = o0 :: kk).
-  { unfold lkept. rewrite (map_filter_comp erase_option (option_never_selected ors b)).
-    assert (Eo : map erase_option (lb_options lb) = b_options b).
-    { transitivity (b_options (erase_builder lb)); [reflexivity|rewrite Eb; reflexivity]. }
-    rewrite Eo. exact Ek. }
-  destruct (unselected_unchanged_partial_proof ss files lang bs lrs lbs' lb lkept Hl H Hi) as (b' & Hb' & Hsame & Hk).
+  destruct (unselected_unchanged_rules ss lrs lang bs bs' b (o0 :: kk) H Hb) as (b' & Hb' & Hsame & Hk).
   - intros r Hr. unfold builder_never_selected in Ens. rewrite forallb_forall in Ens. specialize (Ens r Hr).
-    rewrite (sel_builder_hdr ss _ lb (header_of b)); [destruct (sel_builder _ _ _); [discriminate|reflexivity]| |]; reflexivity.
-  - intros o Ho. unfold lkept in Ho. apply filter_In in Ho. apply Ho.
-  - intros r o Hr Ho. unfold lkept in Ho. apply filter_In in Ho. destruct Ho as [_ Ho].
+    destruct (sel_builder _ _ _); [discriminate|reflexivity].
+  - intros o Ho. rewrite <- Ek in Ho. apply filter_In in Ho. apply Ho.
+  - intros r o Hr Ho. rewrite <- Ek in Ho. apply filter_In in Ho. destruct Ho as [_ Ho].
     unfold option_never_selected in Ho. rewrite forallb_forall in Ho. specialize (Ho r Hr).
-    rewrite (sel_option_hdr _ lb (header_of b) o (label_option [] (erase_option o))); try reflexivity.
     destruct (sel_option _ _ _); [discriminate|reflexivity].
-  - intros E. rewrite E in Ekept. discriminate.
-  - apply existsb_exists. exists (erase_builder b'). split; [unfold erase_builders; apply in_map; exact Hb'|].
-    apply andb_true_iff. split; [rewrite <- Eb; apply lsame_erase_same; exact Hsame|].
-    apply forallb_forall. intros o Ho. rewrite <- Ekept in Ho. apply in_map_iff in Ho. destruct Ho as (lo & <- & Hlo).
-    apply existsb_exists. exists (erase_option lo). split; [|apply boption_eqb_refl].
-    unfold erase_builder. simpl. apply in_map. apply Hk. exact Hlo.
+  - discriminate.
+  - apply existsb_exists. exists b'. split; [exact Hb'|].
+    apply andb_true_iff. split; [apply same_header_checked; exact Hsame|].
+    apply forallb_forall. intros o Ho. apply existsb_exists. exists o. split; [apply Hk; exact Ho|apply boption_eqb_refl].
 Qed.
 
-Theorem unselected_unchanged_checker_proof ss files lang bs lrs bs' :
-  rewriter_from files = Ok lrs -> apply_to ss files lang bs = Ok bs' -> interference ss files lang bs = false ->
-  frame_ok ss lrs lang bs bs' = true.
+Theorem unselected_unchanged_proof ss files lang bs lrs bs' :
+  rewriter_from files = Ok lrs -> apply_to ss files lang bs = Ok bs' -> frame_ok ss lrs lang bs bs' = true.
 Proof.
-  intros Hl H Hi. unfold apply_to in H. unfold interference in Hi.
-  destruct (apply_to_l true ss files lang bs) as [[lbs' fl]| | |] eqn:E; simpl in H; try discriminate.
-  inversion H; subst. simpl in Hi. subst fl. apply (frame_checker_sound _ _ _ _ _ _ Hl E).
+  intros Hl H. unfold apply_to in H. destruct (negb (aliases_acyclic ss)); [discriminate|]. rewrite Hl in H. simpl in H.
+  apply (frame_checker_sound _ _ _ _ _ H).
 Qed.
 
-(* ---------------------------------------------------------------- array_to_append / map_to_index on options of the
-   shape FromAST derives keep them well-typed (what breaks WT is sharing, or an earlier rule that left another shape) *)
-Lemma lopt_wt_is_lopt_ok ss root o : lopt_wt ss root o = lopt_ok ss root o.
-Proof. reflexivity. Qed.
+Theorem unselected_unchanged_detailed_proof ss files lang bs lrs bs' b kept :
+  rewriter_from files = Ok lrs -> apply_to ss files lang bs = Ok bs' ->
+  In b bs ->
+  (forall r, In r (builder_rules_for all_languages lrs ++ builder_rules_for lang lrs) -> sel_builder ss (brule_selector r) b = false) ->
+  (forall o, In o kept -> In o (b_options b)) ->
+  (forall r o, In r (option_rules_for all_languages lrs ++ option_rules_for lang lrs) -> In o kept -> sel_option (or_sel r) b o = false) ->
+  kept <> [] ->
+  exists b', In b' bs' /\ same_header b b' /\ forall o, In o kept -> In o (b_options b').
+Proof.
+  intros Hl H. unfold apply_to in H. destruct (negb (aliases_acyclic ss)); [discriminate|]. rewrite Hl in H. simpl in H.
+  apply (unselected_unchanged_rules _ _ _ _ _ _ _ H).
+Qed.
 
-Lemma arg_declared_head a r : arg_declared (a :: r) a = true.
-Proof. unfold arg_declared. simpl. unfold ty_eqb_nn. rewrite seqb_refl', ty_eqb_refl. reflexivity. Qed.
+(* ---------------------------------------------------------------- contracts of the option actions *)
+(* an action that always succeeds with options g o turns applyOptionRules into a flat map *)
+Lemma process_options_simple ss r b (g : boption -> list boption) :
+  (forall o, In o (b_options b) -> sel_option (or_sel r) b o = true -> run_action ss (or_action r) b o = Ok (g o)) ->
+  process_options ss r b = Ok (flat_map (fun o => if sel_option (or_sel r) b o then g o else [o]) (b_options b)).
+Proof.
+  intros H. unfold process_options.
+  rewrite (mapM_ok_map _ (fun o => if sel_option (or_sel r) b o then g o else [o])).
+  - simpl. rewrite flat_map_concat_map. reflexivity.
+  - intros o Ho. unfold option_step. destruct (sel_option (or_sel r) b o) eqn:Es; [apply H; assumption|reflexivity].
+Qed.
+
+Lemma flat_map_filter_neg {A} (sel : A -> bool) l : flat_map (fun o => if sel o then [] else [o]) l = filter (fun o => negb (sel o)) l.
+Proof. induction l as [|x r IH]; simpl; [reflexivity|]. rewrite IH. destruct (sel x); reflexivity. Qed.
+Lemma flat_map_map_if {A} (sel : A -> bool) (f : A -> A) l : flat_map (fun o => if sel o then [f o] else [o]) l = map (fun o => if sel o then f o else o) l.
+Proof. induction l as [|x r IH]; simpl; [reflexivity|]. rewrite IH. destruct (sel x); reflexivity. Qed.
+
+(* omit removes exactly the selected options *)
+Lemma omit_option_spec ss s b :
+  process_options ss (mkORule s AOmit) b = Ok (filter (fun o => negb (sel_option s b o)) (b_options b)).
+Proof. rewrite (process_options_simple _ _ _ (fun _ => [])); [simpl; rewrite flat_map_filter_neg; reflexivity|reflexivity]. Qed.
+
+(* rename changes the name of the selected options and nothing else *)
+Lemma rename_option_spec ss s n b :
+  process_options ss (mkORule s (ARename n)) b = Ok (map (fun o => if sel_option s b o then set_oname o n else o) (b_options b)).
+Proof. rewrite (process_options_simple _ _ _ (fun o => [set_oname o n])); [simpl; rewrite flat_map_map_if; reflexivity|reflexivity]. Qed.
+
+Lemma add_comments_option_spec ss s cs b :
+  process_options ss (mkORule s (AAddComments cs)) b
+  = Ok (map (fun o => if sel_option s b o then set_ocomments o (op_comments o ++ cs) else o) (b_options b)).
+Proof. rewrite (process_options_simple _ _ _ (fun o => [set_ocomments o (op_comments o ++ cs)])); [simpl; rewrite flat_map_map_if; reflexivity|reflexivity]. Qed.
+
+(* duplicate (option): the option followed by a copy equal to it in everything but the name *)
+Lemma duplicate_option_spec ss s n b :
+  process_options ss (mkORule s (ADuplicate n)) b
+  = Ok (flat_map (fun o => if sel_option s b o then [o; set_oname o n] else [o]) (b_options b)).
+Proof. rewrite (process_options_simple _ _ _ (fun o => [o; set_oname o n])); reflexivity. Qed.
+
+(* array_to_append: either nothing happens, or the option keeps its name and assigns the same
+   paths, the first one now by appending one element of the array's value type *)
+Lemma array_to_append_spec o os :
+  array_to_append_action o = Ok os ->
+  os = [o] \/
+  exists a al v first rest first',
+    op_args o = [a] /\ a_type a = TArray al v /\ op_assignments o = first :: rest /\
+    os = [mkOption (op_name o) (op_comments o) [mkArg (singularize (a_name a)) v] (first' :: rest) (op_default o)] /\
+    as_path first' = as_path first /\ as_method first' = "append" /\
+    as_constraints first' = as_constraints first /\ as_const first' = as_const first /\ as_env first' = as_env first /\
+    as_arg first' = match as_arg first with Some _ => Some (mkArg (singularize (a_name a)) v) | None => None end.
+Proof.
+  unfold array_to_append_action. destruct (op_args o) as [|a [|a2 r2]] eqn:Ea; try (intros H; inversion H; left; reflexivity).
+  destruct (a_type a) eqn:Et; try (intros H; inversion H; left; reflexivity).
+  destruct (op_assignments o) as [|first rest] eqn:Eas; [discriminate|].
+  intros H. inversion H; subst; clear H. right.
+  exists a. do 2 eexists. exists first, rest. eexists.
+  split; [reflexivity|]. split; [exact Et|]. split; [reflexivity|]. split; [reflexivity|].
+  destruct first as [p [arg c env] m cs ncs]. destruct arg; repeat split.
+Qed.
+
+(* map_to_index: the first assignment goes one level below the original path, at the index
+   given by the new argument `key`; the value argument is one element of the map *)
+Lemma map_to_index_spec o os :
+  map_to_index_action o = Ok os ->
+  os = [o] \/
+  exists a al it vt first rest first',
+    op_args o = [a] /\ a_type a = TMap al it vt /\ op_assignments o = first :: rest /\
+    os = [mkOption (op_name o) (op_comments o) [mkArg "key" it; mkArg (singularize (a_name a)) vt] (first' :: rest) (op_default o)] /\
+    as_path first' = as_path first ++ [index_item (mkArg "key" it) vt] /\ as_method first' = "index" /\
+    as_constraints first' = as_constraints first /\ as_const first' = as_const first /\ as_env first' = as_env first /\
+    as_arg first' = match as_arg first with Some _ => Some (mkArg (singularize (a_name a)) vt) | None => None end.
+Proof.
+  unfold map_to_index_action. destruct (op_args o) as [|a [|a2 r2]] eqn:Ea; try (intros H; inversion H; left; reflexivity).
+  destruct (a_type a) eqn:Et; try (intros H; inversion H; left; reflexivity).
+  destruct (op_assignments o) as [|first rest] eqn:Eas; [discriminate|].
+  intros H. inversion H; subst; clear H. right.
+  exists a. do 3 eexists. exists first, rest. eexists.
+  split; [reflexivity|]. split; [exact Et|]. split; [reflexivity|]. split; [reflexivity|].
+  destruct first as [p [arg c env] m cs ncs]. destruct arg; repeat split.
+Qed.
+
+(* unfold_boolean: either nothing happens, or two argument-less options assign true and false
+   to the very path the option assigned first *)
+Lemma unfold_boolean_spec tn fn o os :
+  unfold_boolean_action tn fn o = Ok os ->
+  os = [o] \/
+  exists first rest d1 d2,
+    op_assignments o = first :: rest /\
+    os = [mkOption tn (op_comments o) [] [constant_asg (as_path first) (DBool true)] d1;
+          mkOption fn (op_comments o) [] [constant_asg (as_path first) (DBool false)] d2].
+Proof.
+  unfold unfold_boolean_action. destruct (op_assignments o) as [|first rest]; [discriminate|].
+  destruct (last_item (as_path first)) as [it|]; [|discriminate].
+  destruct (is_bool_scalar (pi_type it)); [|intros H; inversion H; left; reflexivity].
+  destruct (match op_default o with
+            | None => Ok (None, None) | Some [] => Panic "index out of range [0] with length 0"
+            | Some (DBool true :: _) => Ok (Some [], None) | Some (_ :: _) => Ok (None, Some []) end) as [[d1 d2]| | |];
+    simpl; try discriminate.
+  intros H. inversion H; subst. right. do 4 eexists. split; reflexivity.
+Qed.
+
+(* struct_fields_as_options: every produced option has one argument (the field) and one direct
+   assignment, to the field below the path the option assigned first *)
+Lemma sfa_options_spec ss explicit o os :
+  struct_fields_as_options_action ss explicit o = Ok os ->
+  os = [o] \/
+  exists first rest, op_assignments o = first :: rest /\
+    forall o', In o' os ->
+      exists f cs, op_name o' = f_name f /\ op_comments o' = f_comments f /\ op_args o' = [mkArg (f_name f) (f_type f)] /\
+        op_assignments o' = [mkAssignment (as_path first ++ path_from_struct_field f) (AValue (Some (mkArg (f_name f) (f_type f))) DNil None)
+                                          "direct" cs []].
+Proof.
+  unfold struct_fields_as_options_action. destruct (op_args o) as [|a0 others]; [intros H; inversion H; left; reflexivity|].
+  destruct (first_arg_struct ss (a_type a0)) as [ | | | |sa dh fs| | | | | | ]; try (intros H; inversion H; left; reflexivity).
+  destruct (op_assignments o) as [|first rest]; [discriminate|].
+  intros Em. right. exists first, rest. split; [reflexivity|].
+  intros o' Ho'. apply mapM_ok_forall2 in Em. destruct (forall2_in_r _ _ _ _ Em Ho') as (f & _ & E). unfold field_option in E.
+  destruct (with_type_constraints _ _) as [cs| | |]; simpl in E; try discriminate. inversion E; subst.
+  exists f, cs. repeat split.
+Qed.
+
+(* struct_fields_as_arguments: every assignment of the result goes to the path the option assigned
+   first (appending an envelope), to one field below it, or is one of the untouched other assignments *)
+Lemma foldM_invariant {A B} (f : A -> B -> res A) (P : A -> Prop) l : forall a a',
+  (forall a x a', P a -> f a x = Ok a' -> P a') -> foldM f l a = Ok a' -> P a -> P a'.
+Proof.
+  induction l as [|x r IH]; intros a a' Hstep H Hp; simpl in H.
+  - inversion H; subst. exact Hp.
+  - destruct (f a x) as [a1| | |] eqn:E; simpl in H; try discriminate. apply (IH _ _ Hstep H). apply (Hstep _ _ _ Hp E).
+Qed.
+
+Lemma sfa_arguments_spec ss explicit o os :
+  struct_fields_as_arguments_action ss explicit o = Ok os ->
+  os = [o] \/
+  exists first rest o', op_assignments o = first :: rest /\ os = [o'] /\ op_name o' = op_name o /\ op_comments o' = op_comments o /\
+    forall a', In a' (op_assignments o') ->
+      In a' rest \/ as_path a' = as_path first \/ exists it, as_path a' = as_path first ++ [it] /\ pi_index it = None.
+Proof.
+  unfold struct_fields_as_arguments_action. destruct (op_args o) as [|a0 others]; [intros H; inversion H; left; reflexivity|].
+  destruct (first_arg_struct ss (a_type a0)) as [ | | | |sa dh fs| | | | | | ]; try (intros H; inversion H; left; reflexivity).
+  destruct (op_assignments o) as [|first rest]; [discriminate|].
+  destruct (last_item (as_path first)) as [lastit|]; [|discriminate].
+  destruct (foldM _ _ _) as [acc| | |] eqn:Ef; simpl; try discriminate.
+  intros H. inversion H; subst; clear H. right. do 3 eexists. repeat split.
+  assert (Hinv : Forall (fun a' => exists it, as_path a' = as_path first ++ [it] /\ pi_index it = None) (sa_asgs acc)).
+  { eapply (foldM_invariant _ (fun acc => Forall (fun a' => exists it, as_path a' = as_path first ++ [it] /\ pi_index it = None) (sa_asgs acc)));
+      [|exact Ef|constructor].
+    intros a f a' Hp E. unfold sfa_field in E.
+    destruct (is_array (pi_type lastit)); [inversion E; subst; exact Hp|].
+    destruct (is_concrete_scalar _).
+    - inversion E; subst. simpl. apply Forall_app. split; [exact Hp|]. constructor; [|constructor]. eexists. split; reflexivity.
+    - destruct (with_type_constraints _ _) as [cs| | |]; simpl in E; try discriminate. inversion E; subst. simpl.
+      apply Forall_app. split; [exact Hp|]. constructor; [|constructor]. eexists. split; reflexivity. }
+  intros a' Ha'. simpl in Ha'.
+  assert (Hcore : In a' (if is_array (pi_type lastit)
+                         then [mkAssignment (as_path first) (AValue None DNil (Some (match pi_type lastit with TArray _ v => v | t => t end, sa_env acc))) "append" [] []]
+                         else sa_asgs acc) -> as_path a' = as_path first \/ exists it, as_path a' = as_path first ++ [it] /\ pi_index it = None).
+  { destruct (is_array (pi_type lastit)).
+    - intros [<-|[]]. left. reflexivity.
+    - intros Hin. right. rewrite Forall_forall in Hinv. apply Hinv. exact Hin. }
+  destruct others as [|o2 oo].
+  - right. apply Hcore. exact Ha'.
+  - apply in_app_or in Ha'. destruct Ha' as [Ha'|Ha']; [right; apply Hcore; exact Ha'|left; exact Ha'].
+Qed.
+
+(* disjunction_as_options: every produced option assigns exactly the paths the option assigned,
+   with the same methods *)
+Lemma replace_first_using_paths n mk l :
+  (forall a, as_path (mk a) = as_path a /\ as_method (mk a) = as_method a) ->
+  map as_path (replace_first_using n mk l) = map as_path l /\ map as_method (replace_first_using n mk l) = map as_method l.
+Proof.
+  intros Hmk. induction l as [|a r [IH1 IH2]]; simpl; [split; reflexivity|].
+  destruct (as_arg a) as [x|]; [destruct (seqb (a_name x) n)|]; simpl; rewrite ?IH1, ?IH2;
+    try (destruct (Hmk a) as [-> ->]); split; reflexivity.
+Qed.
+
+Lemma disjunction_as_options_spec ss idx o os :
+  disjunction_as_options_action ss idx o = Ok os ->
+  forall o', In o' os ->
+    map as_path (op_assignments o') = map as_path (op_assignments o) /\
+    map as_method (op_assignments o') = map as_method (op_assignments o).
+Proof.
+  unfold disjunction_as_options_action.
+  assert (Hsame : forall os, Ok [o] = Ok os -> forall o', In o' os ->
+            map as_path (op_assignments o') = map as_path (op_assignments o) /\ map as_method (op_assignments o') = map as_method (op_assignments o)).
+  { intros os0 H. inversion H; subst. intros o' [<-|[]]. split; reflexivity. }
+  destruct (op_args o) as [|a0 others] eqn:Ea; [apply Hsame|].
+  destruct (idx <? 0)%Z; [discriminate|].
+  destruct (nth_error (a0 :: others) (Z.to_nat idx)) as [target|]; [|discriminate].
+  destruct (a_type target) as [da d| | | | |ra rp rn| | | | | ] eqn:Et; try apply Hsame.
+  - intros H. inversion H; subst. intros o' Ho'. apply in_map_iff in Ho'. destruct Ho' as (br & <- & _).
+    unfold disjunction_branch_option, option_deep_copy. simpl. apply replace_first_using_paths. intros a. split; reflexivity.
+  - destruct (is_struct_generated_from_disjunction _); [|apply Hsame].
+    intros H. inversion H; subst. intros o' Ho'. apply in_map_iff in Ho'. destruct Ho' as (f & <- & _).
+    unfold disjunction_branch_option, option_deep_copy. simpl. apply replace_first_using_paths. intros a. split; reflexivity.
+Qed.
+
+(* ---------------------------------------------------------------- paths: Path.Append, MakePath *)
+(* Path.Append keeps both operands: for a prefix of k items (k arbitrary) the result has the prefix
+   as its first k items, the suffix after them, and ends where the suffix ends *)
+Lemma path_append_keeps : forall k (under p : path), List.length under = k ->
+  firstn k (path_append under p) = under /\ skipn k (path_append under p) = p /\
+  List.length (path_append under p) = k + List.length p /\
+  (p <> [] -> last_item (path_append under p) = last_item p).
+Proof.
+  induction k as [|k IH]; intros under p Hlen.
+  - destruct under; [|discriminate]. simpl. repeat split.
+  - destruct under as [|it r]; [discriminate|]. simpl in Hlen. inversion Hlen as [Hl].
+    destruct (IH r p Hl) as (H1 & H2 & H3 & H4). unfold path_append in *. simpl. repeat split.
+    + rewrite Hl, H1. reflexivity.
+    + rewrite Hl. exact H2.
+    + rewrite Hl, H3. reflexivity.
+    + intros Hp. specialize (H4 Hp). unfold last_item in *. simpl.
+      destruct (map Some (r ++ p)) eqn:Em; [|exact H4].
+      destruct r; destruct p; simpl in Em; try discriminate. contradiction.
+Qed.
 
 Lemma path_args_app p q : path_args (p ++ q) = path_args p ++ path_args q.
 Proof. unfold path_args. apply flat_map_app. Qed.
@@ -1426,57 +632,631 @@ Proof. unfold path_args. apply flat_map_app. Qed.
 Lemma last_item_cons it it2 r : last_item (it :: it2 :: r) = last_item (it2 :: r).
 Proof. reflexivity. Qed.
 
-Lemma path_ok_go_snoc ss x : forall p cur it,
-  path_ok_go ss cur p = true -> last_item p = Some it ->
-  path_ok_go ss (match pi_typehint it with Some h => h | None => pi_type it end) [x] = true ->
-  path_ok_go ss cur (p ++ [x]) = true.
+Lemma end_type_cons cur it r : end_type cur (it :: r) = end_type (next_type it) r.
 Proof.
-  induction p as [|it0 r IH]; intros cur it Hok Hl Hx; [discriminate|].
-  simpl in Hok. simpl.
-  destruct (negb (pi_root it0)); [|discriminate]. simpl in *.
-  destruct (match pi_typehint it0 with None => true | Some _ => is_any (pi_type it0) end); [|discriminate]. simpl in *.
-  assert (Hrest : forall nxt, path_ok_go ss nxt r = true -> nxt = match pi_typehint it0 with Some h => h | None => pi_type it0 end ->
-                              path_ok_go ss nxt (r ++ [x]) = true).
-  { intros nxt Hr ->. destruct r as [|it2 r2].
-    - simpl in Hl. inversion Hl; subst. exact Hx.
-    - apply (IH _ it Hr); [rewrite <- Hl; reflexivity|exact Hx]. }
-  destruct (pi_index it0).
-  - destruct (resolve_total ss cur); try discriminate;
-      (apply andb_true_iff in Hok; destruct Hok as [H1 H2]; rewrite H1; simpl; apply Hrest; [exact H2|reflexivity]).
-  - destruct (resolve_total ss cur); try discriminate. destruct (field_by_name fs (pi_id it0)); [|discriminate].
-    apply andb_true_iff in Hok. destruct Hok as [H1 H2]. rewrite H1. simpl. apply Hrest; [exact H2|reflexivity].
+  unfold end_type. destruct r as [|it2 r]; [reflexivity|]. rewrite last_item_cons.
+  destruct (last_item (it2 :: r)) eqn:E; [reflexivity|]. exfalso. clear -E. unfold last_item in E.
+  revert it2 E. induction r as [|x r IH]; intros it2 E; [discriminate|]. apply (IH x). exact E.
 Qed.
 
-Lemma array_to_append_derived_wt ss root base o a first os effs :
-  derived_shape o a first -> lopt_wt ss root o = true -> array_to_append_action base o = Ok (os, effs) ->
-  forallb (lopt_wt ss root) os = true.
+(* a chain followed by a chain that starts where the first one ends is a chain *)
+Lemma path_ok_go_app ss q : forall p cur,
+  path_ok_go ss cur (p ++ q) = path_ok_go ss cur p && path_ok_go ss (end_type cur p) q.
 Proof.
-  intros (Ha & Has & (l & Hl) & He & Hc & Hpa & _) Hw H. unfold array_to_append_action in H. rewrite Ha, Has in H.
-  unfold lopt_wt in Hw. rewrite Has in Hw. simpl in Hw. rewrite andb_true_r in Hw.
-  destruct (a_type a) eqn:Et; try (inversion H; subst; simpl; unfold lopt_wt; rewrite Has; simpl; rewrite Hw; reflexivity).
-  inversion H; subst; clear H. rewrite Hl. unfold lopt_wt. cbn [forallb lo_assignments lo_args]. rewrite !andb_true_r.
-  unfold assignment_ok, erase_asg, assignment_args in *. cbn [as_path as_value as_constraints set_la_method set_la_arg la_path la_arg la_const la_env la_method la_constraints la_nilchecks option_map snd] in *.
-  rewrite He, Hc, Hpa in *. cbn [avalue_paths_ok avalue_args map app forallb] in *.
-  apply andb_true_iff in Hw. destruct Hw as [Hw _]. rewrite Hw. rewrite arg_declared_head. reflexivity.
+  induction p as [|it r IH]; intros cur; [reflexivity|].
+  rewrite end_type_cons. cbn [app path_ok_go]. fold (next_type it).
+  destruct (negb (pi_root it)); [|reflexivity]. cbn [andb].
+  destruct (match pi_typehint it with None => true | Some _ => is_any (pi_type it) end); [|reflexivity]. cbn [andb].
+  destruct (pi_index it).
+  - destruct (resolve_total ss cur); try reflexivity; rewrite IH, andb_assoc; reflexivity.
+  - destruct (resolve_total ss cur); try reflexivity. destruct (field_by_name fs (pi_id it)); [|reflexivity].
+    rewrite IH, andb_assoc. reflexivity.
 Qed.
 
-Lemma map_to_index_derived_wt ss root base o a first os effs :
-  derived_shape o a first -> lopt_wt ss root o = true -> map_to_index_action base o = Ok (os, effs) ->
-  forallb (lopt_wt ss root) os = true.
+(* the first item is looked up in what the current type resolves to *)
+Lemma path_ok_go_resolved ss c1 c2 p : resolve_total ss c1 = resolve_total ss c2 -> path_ok_go ss c1 p = path_ok_go ss c2 p.
+Proof. intros H. destruct p as [|it r]; [reflexivity|]. cbn [path_ok_go]. rewrite H. reflexivity. Qed.
+
+Lemma resolve_to_type_nonref fuel ss t : is_ref t = false -> resolve_to_type fuel ss t = Ok t.
+Proof. destruct fuel; destruct t; simpl; intros H; try reflexivity; discriminate. Qed.
+Lemma resolve_total_nonref ss t : is_ref t = false -> resolve_total ss t = t.
+Proof. intros H. unfold resolve_total. rewrite resolve_to_type_nonref by exact H. reflexivity. Qed.
+Lemma resolve_total_ref ss a p n ob :
+  locate_object ss p n = Some ob -> is_ref (o_type ob) = false -> resolve_total ss (TRef a p n) = o_type ob.
+Proof. intros Hl Hn. unfold resolve_total, res_fuel. simpl. rewrite Hl. rewrite resolve_to_type_nonref by exact Hn. reflexivity. Qed.
+
+Lemma ty_eqb_nd_refl t : ty_eqb_nd t t = true.
+Proof. unfold ty_eqb_nd. apply ty_eqb_refl. Qed.
+
+Lemma locate_by_object_some bs p n rb :
+  locate_by_object bs p n = Some rb -> In rb bs /\ o_selfpkg (b_for rb) = p /\ o_selfname (b_for rb) = n.
 Proof.
-  intros (Ha & Has & (l & Hl) & He & Hc & Hpa & (it & Hlast & Hty & Hhint)) Hw H. unfold map_to_index_action in H. rewrite Ha, Has in H.
-  unfold lopt_wt in Hw. rewrite Has in Hw. simpl in Hw. rewrite andb_true_r in Hw.
-  destruct (a_type a) as [ | | |ma mi mv| | | | | | | ] eqn:Et; try (inversion H; subst; simpl; unfold lopt_wt; rewrite Has; simpl; rewrite Hw; reflexivity).
-  inversion H; subst; clear H. rewrite Hl. unfold lopt_wt. cbn [forallb lo_assignments lo_args]. rewrite !andb_true_r.
-  unfold assignment_ok, erase_asg, assignment_args in *. cbn [as_path as_value as_constraints set_la_method set_la_arg set_la_path la_path la_arg la_const la_env la_method la_constraints la_nilchecks option_map snd] in *.
-  rewrite He, Hc in *. cbn [avalue_paths_ok avalue_args map app forallb] in *.
-  apply andb_true_iff in Hw. destruct Hw as [Hw _]. apply andb_true_iff in Hw. destruct Hw as [Hw _].
-  assert (Hp : path_ok ss root (la_path first ++ [mkPathItem "" (Some (mkPathIndex (Some (mkArg "key" mi)) DNil)) mv None false]) = true).
-  { unfold path_ok in *. destruct (la_path first) as [|i0 r0] eqn:Ep; [discriminate|].
-    change (path_ok_go ss root ((i0 :: r0) ++ [mkPathItem "" (Some (mkPathIndex (Some (mkArg "key" mi)) DNil)) mv None false]) = true).
-    apply (path_ok_go_snoc ss _ (i0 :: r0) root it Hw Hlast). rewrite Hhint, Hty.
-    cbn [path_ok_go pi_root pi_typehint pi_index pi_type negb andb].
-    rewrite resolve_total_nonref by reflexivity. rewrite ty_eqb_nd_refl. reflexivity. }
-  rewrite Hp. rewrite path_args_app, Hpa. cbn [path_args flat_map pi_index px_arg app andb forallb].
-  unfold arg_declared. cbn [existsb a_name a_type]. unfold ty_eqb_nn. rewrite !seqb_refl', !ty_eqb_refl. cbn [andb orb]. rewrite orb_true_r. reflexivity.
+  unfold locate_by_object. intros H. apply find_some in H. destruct H as [Hin Hb]. apply andb_true_iff in Hb.
+  destruct Hb as [H1 H2]. apply String.eqb_eq in H1. apply String.eqb_eq in H2. auto.
+Qed.
+
+Lemma field_by_name_name fs n f : field_by_name fs n = Some f -> f_name f = n.
+Proof. unfold field_by_name. intros H. apply find_some in H. destruct H as [_ H]. apply String.eqb_eq in H. exact H. Qed.
+
+(* Builder.MakePath returns a chain of existing fields with the recorded types, one item per
+   dotted segment, without index, type hint or argument *)
+Lemma make_path_go_ok ss bs : consistent_with ss bs -> forall parts cur acc p,
+  make_path_go bs cur parts acc = Ok p ->
+  exists suffix, p = acc ++ suffix /\ path_ok_go ss cur suffix = true /\ path_args suffix = [] /\
+                 List.length suffix = List.length parts /\ Forall (fun it => pi_typehint it = None /\ pi_index it = None) suffix.
+Proof.
+  intros Hc. induction parts as [|part rest IH]; intros cur acc p H; simpl in H.
+  - inversion H; subst. exists []. rewrite app_nil_r. repeat split. constructor.
+  - destruct (match cur with
+              | TRef _ p0 n => match locate_by_object bs p0 n with Some rb => Ok (o_type (b_for rb)) | None => Err "reference could not be resolved" end
+              | _ => Ok cur end) as [cur1| | |] eqn:E1; simpl in H; try discriminate.
+    destruct cur1 as [ | | | |sa dh fs| | | | | | ]; try discriminate.
+    destruct (field_by_name fs part) as [f|] eqn:Ef; [|discriminate].
+    destruct (IH _ _ _ H) as (suffix & Hp & Hok & Hargs & Hlen & Hplain).
+    exists (mkPathItem part None (f_type f) None false :: suffix).
+    split; [rewrite Hp, <- app_assoc; reflexivity|]. split; [|split; [exact Hargs|split; [simpl; rewrite Hlen; reflexivity|constructor; [split; reflexivity|exact Hplain]]]].
+    assert (Hres : resolve_total ss cur = TStruct sa dh fs).
+    { destruct cur; try (inversion E1; subst; apply resolve_total_nonref; reflexivity).
+      destruct (locate_by_object bs pkg name) as [rb|] eqn:El; [|discriminate].
+      assert (E1' : o_type (b_for rb) = TStruct sa dh fs) by congruence.
+      destruct (locate_by_object_some _ _ _ _ El) as (Hin & <- & <-).
+      rewrite (resolve_total_ref ss a _ _ (b_for rb) (Hc rb Hin)); [exact E1'|rewrite E1'; reflexivity]. }
+    simpl. rewrite Hres, Ef, ty_eqb_nd_refl. exact Hok.
+Qed.
+
+Lemma split_dots_acc_nonempty s cur : split_dots_acc s cur <> [].
+Proof. revert cur. induction s as [|c r IH]; intros cur; simpl; [discriminate|]. destruct (Ascii.eqb c "."%char); [discriminate|apply IH]. Qed.
+
+Lemma make_path_ok ss bs b s p : consistent_with ss bs -> make_path bs b s = Ok p ->
+  path_ok ss (o_type (b_for b)) p = true /\ path_args p = [] /\ List.length p = List.length (split_dots s) /\ p <> [] /\
+  Forall (fun it => pi_typehint it = None /\ pi_index it = None) p.
+Proof.
+  intros Hc. unfold make_path. destruct (seqb s ""); [discriminate|]. intros H.
+  destruct (make_path_go_ok ss bs Hc _ _ _ _ H) as (suffix & Hp & Hok & Hargs & Hlen & Hplain). simpl in Hp. subst p.
+  assert (Hne : suffix <> []).
+  { intros ->. simpl in Hlen. unfold split_dots in Hlen. pose proof (split_dots_acc_nonempty s EmptyString) as Hne.
+    destruct (split_dots_acc s EmptyString); [apply Hne; reflexivity|discriminate]. }
+  repeat split; try assumption. unfold path_ok. destruct suffix; [contradiction|exact Hok].
+Qed.
+
+(* ---------------------------------------------------------------- WT is kept by the rules that cannot break it *)
+Definition bWT (ss : schemas) (b : builder) : Prop := WT ss b = true.
+Definition opt_ok (ss : schemas) (root : ty) (o : boption) : bool := forallb (assignment_ok ss root (op_args o)) (op_assignments o).
+
+Lemma WT_unfold ss b :
+  WT ss b = forallb (assignment_ok ss (o_type (b_for b)) (ct_args (b_ctor b))) (ct_assignments (b_ctor b)) &&
+            forallb (opt_ok ss (o_type (b_for b))) (b_options b).
+Proof. reflexivity. Qed.
+
+Lemma bWT_ext ss b b' : b_for b' = b_for b -> b_ctor b' = b_ctor b -> b_options b' = b_options b -> bWT ss b -> bWT ss b'.
+Proof. unfold bWT. rewrite !WT_unfold. intros -> -> ->. auto. Qed.
+
+Lemma bWT_options ss b os : bWT ss b -> forallb (opt_ok ss (o_type (b_for b))) os = true -> bWT ss (set_options b os).
+Proof. unfold bWT. rewrite !WT_unfold. simpl. intros H Ho. apply andb_true_iff in H. destruct H as [H1 _]. rewrite H1, Ho. reflexivity. Qed.
+
+Lemma bWT_options_ok ss b : bWT ss b -> forallb (opt_ok ss (o_type (b_for b))) (b_options b) = true.
+Proof. unfold bWT. rewrite WT_unfold. intros H. apply andb_true_iff in H. apply H. Qed.
+
+Lemma bWT_ctor_ok ss b : bWT ss b -> forallb (assignment_ok ss (o_type (b_for b)) (ct_args (b_ctor b))) (ct_assignments (b_ctor b)) = true.
+Proof. unfold bWT. rewrite WT_unfold. intros H. apply andb_true_iff in H. apply H. Qed.
+
+(* initialize *)
+Lemma initialize_builder_wt ss bs set b b' :
+  consistent_with ss bs -> initialize_builder bs set b = Ok b' -> bWT ss b -> bWT ss b' /\ b_for b' = b_for b.
+Proof.
+  intros Hc H Hw. unfold initialize_builder in H. destruct (mapM _ set) as [asgs| | |] eqn:Em; simpl in H; try discriminate.
+  inversion H; subst. split; [|reflexivity]. unfold bWT in *. rewrite WT_unfold in *. simpl.
+  apply andb_true_iff in Hw. destruct Hw as [H1 H2]. rewrite H2, andb_true_r. rewrite forallb_app, H1. simpl.
+  apply mapM_ok_forall2 in Em. apply forallb_forall. intros a Ha.
+  destruct (forall2_in_r _ _ _ _ Em Ha) as ([ps v] & _ & E). simpl in E.
+  destruct (make_path bs b ps) as [p| | |] eqn:Ep; simpl in E; try discriminate. inversion E; subst.
+  destruct (make_path_ok _ _ _ _ _ Hc Ep) as (Hok & Hargs & _).
+  unfold assignment_ok, constant_asg, assignment_args. simpl. rewrite Hok, Hargs. reflexivity.
+Qed.
+
+Lemma forall_mapM_if {A} (P : A -> Prop) (sel : A -> bool) (f : A -> res A) l l' :
+  mapM (fun x => if sel x then f x else Ok x) l = Ok l' -> Forall P l ->
+  (forall x y, In x l -> P x -> f x = Ok y -> P y) -> Forall P l'.
+Proof.
+  intros H Hp Hf. apply mapM_ok_forall2 in H. apply Forall_forall. intros y Hy.
+  destruct (forall2_in_r _ _ _ _ H Hy) as (x & Hx & E). rewrite Forall_forall in Hp.
+  destruct (sel x); [apply (Hf x y Hx (Hp x Hx) E)|inversion E; subst; apply Hp; exact Hx].
+Qed.
+
+(* veneers.AssignmentValue.AsIR: the envelope paths it builds exist, and it uses no other argument than the rule's *)
+Section VValueInd.
+  Variable P : vvalue -> Prop.
+  Hypothesis HV : forall arg c env, Forall (fun kv => P (snd kv)) (match env with Some vals => vals | None => [] end) -> P (VValue arg c env).
+  Fixpoint vvalue_ind' (v : vvalue) : P v :=
+    match v with
+    | VValue arg c env =>
+        HV arg c env
+           (match env as e return Forall (fun kv => P (snd kv)) (match e with Some vals => vals | None => [] end) with
+            | Some vals =>
+                (fix go (l : list (string * vvalue)) : Forall (fun kv => P (snd kv)) l :=
+                   match l with [] => Forall_nil _ | (k, x) :: r => Forall_cons (k, x) (vvalue_ind' x) (go r) end) vals
+            | None => Forall_nil _
+            end)
+    end.
+End VValueInd.
+
+Lemma vvalue_as_ir_ok ss : forall v p av, vvalue_as_ir ss p v = Ok av ->
+  avalue_paths_ok ss av = true /\ incl (avalue_args av) (vvalue_args v).
+Proof.
+  induction v as [arg c env IH] using vvalue_ind'. intros p av H.
+  destruct arg as [a|].
+  - simpl in H. inversion H; subst. split; [reflexivity|]. simpl. intros x [<-|[]]. left. reflexivity.
+  - cbn [vvalue_as_ir] in H. destruct (negb (dyn_is_nil c)).
+    + inversion H; subst. split; [reflexivity|]. intros x [].
+    + destruct env as [vals|]; [|discriminate].
+      destruct (last_item p) as [it|]; [|discriminate].
+      set (et := envelope_type_of (pi_type it)) in *.
+      match type of H with (do vs <- ?G vals ; _) = _ => set (go := G) in * end.
+      assert (Hgo : forall l vs, Forall (fun kv => forall p av, vvalue_as_ir ss p (snd kv) = Ok av ->
+                                           avalue_paths_ok ss av = true /\ incl (avalue_args av) (vvalue_args (snd kv))) l ->
+                 go l = Ok vs ->
+                 (fix ok (l : list (path * avalue)) : bool :=
+                    match l with [] => true | (p, x) :: r => path_ok ss et p && avalue_paths_ok ss x && ok r end) vs = true /\
+                 incl ((fix ga (l : list (path * avalue)) : list argument :=
+                          match l with [] => [] | (p, x) :: r => path_args p ++ avalue_args x ++ ga r end) vs)
+                      ((fix gv (l : list (string * vvalue)) : list argument :=
+                          match l with [] => [] | (_, x) :: r => vvalue_args x ++ gv r end) l)).
+      { induction l as [|[fname fv] r IHl]; intros vs Hall Hg; simpl in Hg.
+        - inversion Hg; subst. split; [reflexivity|]. intros x [].
+        - destruct (resolve_total ss et) as [ | | | |sa dh fs| | | | | | ] eqn:Er; try discriminate.
+          destruct (field_by_name fs fname) as [f|] eqn:Ef; [|discriminate].
+          destruct (vvalue_as_ir ss (path_from_struct_field f) fv) as [x| | |] eqn:Ex; simpl in Hg; try discriminate.
+          destruct (go r) as [xs| | |] eqn:Exs; simpl in Hg; try discriminate. inversion Hg; subst.
+          inversion Hall as [|? ? Hfv Hr]; subst. destruct (Hfv _ _ Ex) as [Hx1 Hx2]. destruct (IHl _ Hr eq_refl) as [Hr1 Hr2].
+          split.
+          + rewrite Hx1, Hr1. unfold path_ok, path_from_struct_field. cbn [path_ok_go pi_root pi_typehint pi_index pi_type pi_id negb andb].
+            rewrite Er. rewrite (field_by_name_name _ _ _ Ef), Ef, ty_eqb_nd_refl. reflexivity.
+          + simpl. intros y Hy. apply in_app_or in Hy. destruct Hy as [Hy|Hy]; apply in_or_app; [left; apply Hx2; exact Hy|right; apply Hr2; exact Hy]. }
+      destruct (go vals) as [vs| | |] eqn:Eg; simpl in H; try discriminate. inversion H; subst.
+      destruct (Hgo vals vs IH Eg) as [H1 H2]. split; [exact H1|]. simpl. exact H2.
+Qed.
+
+Lemma incl_forallb {A} (p : A -> bool) l l' : incl l l' -> forallb p l' = true -> forallb p l = true.
+Proof. intros Hi H. rewrite forallb_forall in *. intros x Hx. apply H. apply Hi. exact Hx. Qed.
+
+Lemma vassignment_as_ir_ok ss bs root args a asg :
+  consistent_with ss bs -> vassignment_as_ir ss bs root a = Ok asg ->
+  forallb (arg_declared args) (vvalue_args (va_value a)) = true ->
+  assignment_ok ss (o_type (b_for root)) args asg = true.
+Proof.
+  intros Hc H Hd. unfold vassignment_as_ir in H.
+  destruct (make_path bs root (va_path a)) as [p| | |] eqn:Ep; simpl in H; try discriminate.
+  destruct (vvalue_as_ir ss p (va_value a)) as [v| | |] eqn:Ev; simpl in H; try discriminate. inversion H; subst.
+  destruct (make_path_ok _ _ _ _ _ Hc Ep) as (Hok & Hargs & _). destruct (vvalue_as_ir_ok _ _ _ _ Ev) as [Hv1 Hv2].
+  unfold assignment_ok, assignment_args. simpl. rewrite Hok, Hv1, Hargs. simpl. rewrite app_nil_r. apply (incl_forallb _ _ _ Hv2 Hd).
+Qed.
+
+(* every builder rule of the safe group keeps: each builder well-typed, and each builder's object the schemas' *)
+Lemma wt_safe_brule_preserves ss r bs bs' :
+  wt_safe_brule r = true -> apply_builder_rule ss r bs = Ok bs' ->
+  consistent_with ss bs -> Forall (bWT ss) bs -> consistent_with ss bs' /\ Forall (bWT ss) bs'.
+Proof.
+  intros Hsafe H Hc Hw.
+  set (Q := fun b => bWT ss b /\ locate_object ss (o_selfpkg (b_for b)) (o_selfname (b_for b)) = Some (b_for b)).
+  assert (Hboth : Forall Q bs).
+  { apply Forall_forall. intros b Hb. rewrite Forall_forall in Hw. split; [apply Hw; exact Hb|apply Hc; exact Hb]. }
+  cut (Forall Q bs').
+  { intros Hf. rewrite Forall_forall in Hf. split; [intros b Hb; apply Hf; exact Hb|apply Forall_forall; intros b Hb; apply Hf; exact Hb]. }
+  destruct r as [s|s n|s src under excl ren|s c|s ps|s n excl|s set|s names|s o|s f]; try discriminate; cbn [apply_builder_rule] in H.
+  - inversion H; subst. unfold omit_rule. rewrite Forall_forall in *. intros b Hb. apply filter_In in Hb. apply Hboth. apply Hb.
+  - inversion H; subst. unfold rename_rule. rewrite Forall_forall in *. intros b' Hb'. apply in_map_iff in Hb'.
+    destruct Hb' as (b & <- & Hb). destruct (Hboth b Hb) as [H1 H2]. destruct (sel_builder ss s b); [|split; assumption].
+    split; [apply (bWT_ext ss b); try reflexivity; exact H1|exact H2].
+  - inversion H; subst. unfold properties_rule. rewrite Forall_forall in *. intros b' Hb'. apply in_map_iff in Hb'.
+    destruct Hb' as (b & <- & Hb). destruct (Hboth b Hb) as [H1 H2]. destruct (sel_builder ss s b); [|split; assumption].
+    split; [apply (bWT_ext ss b); try reflexivity; exact H1|exact H2].
+  - inversion H; subst. unfold duplicate_rule. apply Forall_app. split; [exact Hboth|].
+    rewrite Forall_forall in *. intros d Hd. apply in_map_iff in Hd. destruct Hd as (b & <- & Hb). apply filter_In in Hb.
+    destruct (Hboth b (proj1 Hb)) as [H1 H2]. unfold duplicate_builder, builder_deep_copy.
+    assert (Hcopy : bWT ss (set_name b n)) by (apply (bWT_ext ss b); try reflexivity; exact H1).
+    destruct excl as [|e ee]; [split; [exact Hcopy|exact H2]|]. split; [|exact H2].
+    apply bWT_options; [exact Hcopy|]. apply forallb_filter_sub. apply (bWT_options_ok _ _ Hcopy).
+  - unfold initialize_rule in H. apply (forall_mapM_if _ _ _ _ _ H Hboth). intros b b' Hb [H1 H2] E.
+    destruct (initialize_builder_wt _ _ _ _ _ Hc E H1) as [Hw' Hfor]. split; [exact Hw'|rewrite Hfor; exact H2].
+  - (* add_option *)
+    unfold add_option_rule in H. apply (forall_mapM_if _ _ _ _ _ H Hboth). intros b b' Hb [H1 H2] E.
+    unfold voption_as_ir in E. destruct (mapM _ (vo_assignments o)) as [asgs| | |] eqn:Em; simpl in E; try discriminate.
+    inversion E; subst. split; [|exact H2].
+    unfold bWT in *. rewrite WT_unfold in *. simpl. apply andb_true_iff in H1. destruct H1 as [Hc1 Ho1]. rewrite Hc1, forallb_app, Ho1. simpl.
+    rewrite andb_true_r. unfold opt_ok. simpl. apply mapM_ok_forall2 in Em. apply forallb_forall. intros a Ha.
+    destruct (forall2_in_r _ _ _ _ Em Ha) as (va & Hva & Ea).
+    apply (vassignment_as_ir_ok _ _ _ _ _ _ Hc Ea). simpl in Hsafe. unfold voption_wf in Hsafe. rewrite forallb_forall in Hsafe. apply Hsafe. exact Hva.
+  - unfold add_factory_rule in H. apply (forall_mapM_if _ _ _ _ _ H Hboth). intros b b' Hb [H1 H2] E.
+    destruct (ct_args (b_ctor b)); [|discriminate]. inversion E; subst. split; [apply (bWT_ext ss b); try reflexivity; exact H1|exact H2].
+Qed.
+
+(* safe option actions return well-typed options *)
+Lemma opt_ok_ext ss root o o' : op_args o' = op_args o -> op_assignments o' = op_assignments o -> opt_ok ss root o' = opt_ok ss root o.
+Proof. unfold opt_ok. intros -> ->. reflexivity. Qed.
+
+Lemma wt_safe_action_result ss act b o os :
+  wt_safe_action act = true -> consistent_with ss [b] -> opt_ok ss (o_type (b_for b)) o = true ->
+  run_action ss act b o = Ok os -> forallb (opt_ok ss (o_type (b_for b))) os = true.
+Proof.
+  intros Hs Hc Ho H. destruct act; try discriminate; simpl in H.
+  - inversion H. reflexivity.
+  - inversion H. simpl. rewrite andb_true_r. rewrite <- Ho. apply opt_ok_ext; reflexivity.
+  - inversion H. simpl. rewrite Ho. simpl. rewrite andb_true_r. rewrite <- Ho. apply opt_ok_ext; reflexivity.
+  - unfold add_assignment_action in H. destruct (vassignment_as_ir ss [b] b a) as [ir| | |] eqn:E; try discriminate.
+    + inversion H. simpl. rewrite andb_true_r. unfold opt_ok in *. simpl. rewrite forallb_app, Ho. simpl. rewrite andb_true_r.
+      apply (vassignment_as_ir_ok _ _ _ _ _ _ Hc E). simpl in Hs. destruct (vvalue_args (va_value a)); [reflexivity|discriminate].
+    + inversion H. simpl. rewrite Ho. reflexivity.
+  - inversion H. simpl. rewrite andb_true_r. rewrite <- Ho. apply opt_ok_ext; reflexivity.
+Qed.
+
+Lemma process_options_safe_wt ss r b os' :
+  wt_safe_action (or_action r) = true -> consistent_with ss [b] -> process_options ss r b = Ok os' ->
+  forallb (opt_ok ss (o_type (b_for b))) (b_options b) = true -> forallb (opt_ok ss (o_type (b_for b))) os' = true.
+Proof.
+  intros Hs Hc H Ho. unfold process_options in H.
+  destruct (mapM _ _) as [outs| | |] eqn:Em; simpl in H; try discriminate. inversion H; subst. clear H.
+  apply mapM_ok_forall2 in Em. apply forallb_forall. intros o' Ho'. apply in_concat in Ho'. destruct Ho' as (out & Hout & Hin).
+  destruct (forall2_in_r _ _ _ _ Em Hout) as (o & Hoin & E). unfold option_step in E.
+  assert (Hok : opt_ok ss (o_type (b_for b)) o = true) by (rewrite forallb_forall in Ho; apply Ho; exact Hoin).
+  destruct (sel_option (or_sel r) b o).
+  - pose proof (wt_safe_action_result ss _ b o out Hs Hc Hok E) as Hos. rewrite forallb_forall in Hos. apply Hos. exact Hin.
+  - inversion E; subst. destruct Hin as [<-|[]]. exact Hok.
+Qed.
+
+Lemma apply_option_rule_safe ss r bs bs' :
+  wt_safe_action (or_action r) = true -> apply_option_rule ss r bs = Ok bs' ->
+  consistent_with ss bs -> Forall (bWT ss) bs -> consistent_with ss bs' /\ Forall (bWT ss) bs'.
+Proof.
+  intros Hs H Hc Hw. split.
+  - pose proof (apply_option_rule_headers _ _ _ _ H) as Hh. intros b' Hb'.
+    destruct (forall2_in_r _ _ _ _ Hh Hb') as (b & Hb & (Hf & _)). rewrite <- Hf. apply Hc. exact Hb.
+  - unfold apply_option_rule in H. apply mapM_ok_forall2 in H. apply Forall_forall. intros b' Hb'.
+    destruct (forall2_in_r _ _ _ _ H Hb') as (b & Hb & E).
+    destruct (process_options ss r b) as [os'| | |] eqn:Ep; simpl in E; try discriminate. inversion E; subst.
+    rewrite Forall_forall in Hw. apply bWT_options; [apply Hw; exact Hb|].
+    apply (process_options_safe_wt _ _ _ _ Hs); [intros x [<-|[]]; apply Hc; exact Hb|exact Ep|]. apply bWT_options_ok. apply Hw. exact Hb.
+Qed.
+
+(* sequences of safe rules, as the rewriter applies them *)
+Lemma wt_safe_builder_rules ss : forall rs bs bs',
+  forallb wt_safe_brule rs = true -> apply_builder_rules ss rs bs = Ok bs' ->
+  consistent_with ss bs -> Forall (bWT ss) bs -> consistent_with ss bs' /\ Forall (bWT ss) bs'.
+Proof.
+  induction rs as [|r rest IH]; intros bs bs' Hs H Hc Hw; simpl in H.
+  - inversion H; subst. split; assumption.
+  - simpl in Hs. apply andb_true_iff in Hs. destruct Hs as [Hs1 Hs2].
+    destruct (apply_builder_rule ss r bs) as [bs1| | |] eqn:E; simpl in H; try discriminate.
+    destruct (wt_safe_brule_preserves _ _ _ _ Hs1 E Hc Hw) as [Hc1 Hw1]. apply (IH _ _ Hs2 H Hc1 Hw1).
+Qed.
+
+Lemma wt_safe_option_rules_go ss : forall rs bs bs',
+  forallb (fun r => wt_safe_action (or_action r)) rs = true -> apply_option_rules_go ss rs bs = Ok bs' ->
+  consistent_with ss bs -> Forall (bWT ss) bs -> consistent_with ss bs' /\ Forall (bWT ss) bs'.
+Proof.
+  induction rs as [|r rest IH]; intros bs bs' Hs H Hc Hw; simpl in H.
+  - inversion H; subst. split; assumption.
+  - simpl in Hs. apply andb_true_iff in Hs. destruct Hs as [Hs1 Hs2].
+    destruct (apply_option_rule ss r bs) as [bs1| | |] eqn:E; simpl in H; try discriminate.
+    destruct (apply_option_rule_safe _ _ _ _ Hs1 E Hc Hw) as [Hc1 Hw1]. apply (IH _ _ Hs2 H Hc1 Hw1).
+Qed.
+
+Lemma forallb_flat_map_sub {A B} (p : B -> bool) (q : A -> bool) (f : A -> list B) l :
+  (forall x, In x l -> forallb p (f x) = true) -> forallb p (flat_map (fun x => if q x then f x else []) l) = true.
+Proof.
+  intros H. apply forallb_forall. intros y Hy. apply in_flat_map in Hy. destruct Hy as (x & Hx & Hy).
+  destruct (q x); [|contradiction]. specialize (H x Hx). rewrite forallb_forall in H. apply H. exact Hy.
+Qed.
+
+Lemma wt_safe_rules_for lrs l : wt_safe_rules lrs = true ->
+  forallb wt_safe_brule (builder_rules_for l lrs) = true /\ forallb (fun r => wt_safe_action (or_action r)) (option_rules_for l lrs) = true.
+Proof.
+  unfold wt_safe_rules, builder_rules_for, option_rules_for. intros H. rewrite forallb_forall in H. split.
+  - apply forallb_flat_map_sub. intros lr Hlr. specialize (H lr Hlr). apply andb_true_iff in H. apply H.
+  - apply forallb_flat_map_sub. intros lr Hlr. specialize (H lr Hlr). apply andb_true_iff in H. apply H.
+Qed.
+
+Lemma wt_safe_language ss lrs l bs bs' :
+  wt_safe_rules lrs = true -> apply_language ss lrs l bs = Ok bs' ->
+  consistent_with ss bs -> Forall (bWT ss) bs -> consistent_with ss bs' /\ Forall (bWT ss) bs'.
+Proof.
+  intros Hs H Hc Hw. destruct (wt_safe_rules_for lrs l Hs) as [Hsb Hso]. unfold apply_language, apply_option_rules in H.
+  destruct (apply_builder_rules ss (builder_rules_for l lrs) bs) as [bs1| | |] eqn:E1; simpl in H; try discriminate.
+  destruct (wt_safe_builder_rules _ _ _ _ Hsb E1 Hc Hw) as [Hc1 Hw1].
+  destruct (apply_option_rules_go ss _ bs1) as [bs2| | |] eqn:E2; simpl in H; try discriminate.
+  destruct (wt_safe_option_rules_go _ _ _ _ Hso E2 Hc1 Hw1) as (Hc2 & Hw2). inversion H; subst. split.
+  - intros b Hb. apply filter_In in Hb. apply Hc2. apply Hb.
+  - rewrite Forall_forall in *. intros b Hb. apply filter_In in Hb. apply Hw2. apply Hb.
+Qed.
+
+Lemma bWT_all ss bs : WTs ss bs = true <-> Forall (bWT ss) bs.
+Proof. unfold WTs, bWT. rewrite forallb_forall, Forall_forall. reflexivity. Qed.
+
+Theorem rules_preserve_WT_partial_proof ss files lang bs lrs bs' :
+  rewriter_from files = Ok lrs -> wt_safe_rules lrs = true ->
+  consistent_with ss bs -> WTs ss bs = true ->
+  apply_to ss files lang bs = Ok bs' -> WTs ss bs' = true.
+Proof.
+  intros Hl Hs Hc Hw H. unfold apply_to in H. destruct (negb (aliases_acyclic ss)); [discriminate|]. rewrite Hl in H. simpl in H.
+  unfold apply_to_rules in H. destruct (apply_language ss lrs all_languages bs) as [bs1| | |] eqn:E1; simpl in H; try discriminate.
+  apply bWT_all in Hw. destruct (wt_safe_language _ _ _ _ _ Hs E1 Hc Hw) as (Hc1 & Hw1).
+  destruct (wt_safe_language _ _ _ _ _ Hs H Hc1 Hw1) as (_ & Hw2). apply bWT_all. exact Hw2.
+Qed.
+
+(* ---------------------------------------------------------------- merge_into: where the merged assignments land *)
+Lemma flat_map_if_filter {A B} (ex : A -> bool) (f : A -> B) l :
+  flat_map (fun o => if ex o then [] else [f o]) l = map f (filter (fun o => negb (ex o)) l).
+Proof. induction l as [|x r IH]; simpl; [reflexivity|]. rewrite IH. destruct (ex x); reflexivity. Qed.
+
+Lemma merge_builder_into_options from into under excl ren :
+  b_options (merge_builder_into from into under excl ren)
+  = b_options into ++ map (merged_option under ren) (filter (fun o => negb (item_in_list (op_name o) excl)) (b_options from)).
+Proof. unfold merge_builder_into. simpl. rewrite (flat_map_if_filter (fun o => item_in_list (op_name o) excl) (merged_option under ren)). reflexivity. Qed.
+
+(* merge_into under a path of k dotted segments, for EVERY k: the options of the source land after the
+   destination's own, each assignment under a k-item prefix (the same for all: Path.Append copies), after
+   which its own path follows unchanged — it ends at its own field *)
+Theorem merge_into_paths_proof ss src under excl ren cur dest dest' source :
+  consistent_with ss cur ->
+  merge_into_builder src under excl ren cur dest = Ok dest' ->
+  locate_by_name cur (o_selfpkg (b_for dest)) src = Some source ->
+  exists root k,
+    make_path cur dest under = Ok root /\ k = List.length (split_dots under) /\ List.length root = k /\
+    b_options dest' = b_options dest ++ map (merged_option root ren) (filter (fun o => negb (item_in_list (op_name o) excl)) (b_options source)) /\
+    forall a, as_path (prefix_path root a) = root ++ as_path a /\
+              firstn k (as_path (prefix_path root a)) = root /\ skipn k (as_path (prefix_path root a)) = as_path a /\
+              (as_path a <> [] -> last_item (as_path (prefix_path root a)) = last_item (as_path a)).
+Proof.
+  intros Hc H Hl. unfold merge_into_builder in H. rewrite Hl in H.
+  destruct (make_path cur dest under) as [root| | |] eqn:Ep; simpl in H; try discriminate. inversion H; subst.
+  destruct (make_path_ok _ _ _ _ _ Hc Ep) as (_ & _ & Hlen & _).
+  exists root, (List.length (split_dots under)). split; [reflexivity|]. split; [reflexivity|]. split; [exact Hlen|].
+  split; [apply merge_builder_into_options|].
+  intros a. destruct (path_append_keeps _ root (as_path a) Hlen) as (H1 & H2 & _ & H4). repeat split; assumption.
+Qed.
+
+(* ... and when the path leads to the object the source builds (what MergeInto does not check), the
+   merged builder is well-typed *)
+Lemma path_ok_nonempty ss root p : p <> [] -> path_ok ss root p = path_ok_go ss root p.
+Proof. destruct p; [contradiction|reflexivity]. Qed.
+
+Lemma prefix_assignment_ok ss root_into root_from under args a it :
+  path_ok ss root_into under = true -> path_args under = [] -> last_item under = Some it ->
+  resolve_total ss (next_type it) = resolve_total ss root_from ->
+  assignment_ok ss root_from args a = true -> assignment_ok ss root_into args (prefix_path under a) = true.
+Proof.
+  intros Hu Hua Hl Hr Ha. unfold assignment_ok in *. unfold prefix_path, set_as_path, path_append, assignment_args in *.
+  cbn [as_path as_value as_constraints].
+  apply andb_true_iff in Ha. destruct Ha as [Ha Hargs]. apply andb_true_iff in Ha. destruct Ha as [Hp Hv].
+  rewrite Hv, path_args_app, Hua. cbn [app]. rewrite Hargs, !andb_true_r.
+  assert (Hune : under <> []) by (intros ->; discriminate).
+  assert (Hpne : as_path a <> []) by (intros E; rewrite E in Hp; discriminate).
+  rewrite path_ok_nonempty by (intros E; apply app_eq_nil in E; apply Hune; apply E).
+  rewrite path_ok_nonempty in Hu by exact Hune. rewrite path_ok_nonempty in Hp by exact Hpne.
+  rewrite path_ok_go_app, Hu. cbn [andb]. unfold end_type. rewrite Hl. rewrite (path_ok_go_resolved ss _ root_from _ Hr). exact Hp.
+Qed.
+
+Theorem merge_into_builder_wt_proof ss src under excl ren cur dest dest' :
+  consistent_with ss cur -> Forall (bWT ss) cur -> bWT ss dest ->
+  merge_target_checked ss cur dest src under ->
+  merge_into_builder src under excl ren cur dest = Ok dest' -> bWT ss dest' /\ b_for dest' = b_for dest.
+Proof.
+  intros Hc Hw Hd Hchk H. unfold merge_into_builder in H.
+  destruct (locate_by_name cur (o_selfpkg (b_for dest)) src) as [source|] eqn:El; [|inversion H; subst; split; [exact Hd|reflexivity]].
+  destruct (make_path cur dest under) as [root| | |] eqn:Ep; simpl in H; try discriminate. inversion H; subst. split; [|reflexivity].
+  destruct (make_path_ok _ _ _ _ _ Hc Ep) as (Hok & Hargs & _ & Hne & Hplain).
+  assert (Hsw : bWT ss source).
+  { rewrite Forall_forall in Hw. apply Hw. unfold locate_by_name in El. apply find_some in El. apply El. }
+  destruct (last_item root) as [it|] eqn:Elast.
+  2:{ exfalso. destruct root as [|x r]; [contradiction|]. clear - Elast. unfold last_item in Elast. revert x Elast.
+      induction r as [|y r IH]; intros x E; [discriminate|apply (IH y E)]. }
+  destruct (Hchk source root it El Ep Elast) as [Hres Hconst].
+  assert (Hnext : resolve_total ss (next_type it) = resolve_total ss (o_type (b_for source))).
+  { unfold next_type. assert (Hh : pi_typehint it = None).
+    { rewrite Forall_forall in Hplain. apply Hplain. clear - Elast. unfold last_item in Elast.
+      induction root as [|x r IH]; [discriminate|]. destruct r as [|y r]; [simpl in Elast; inversion Elast; left; reflexivity|right; apply IH; exact Elast]. }
+    rewrite Hh. exact Hres. }
+  unfold bWT in *. rewrite WT_unfold in *. unfold merge_builder_into. simpl.
+  apply andb_true_iff in Hd. destruct Hd as [Hd1 Hd2]. apply andb_true_iff in Hsw. destruct Hsw as [Hs1 Hs2].
+  rewrite !forallb_app, Hd1, Hd2. simpl. apply andb_true_iff. split.
+  - (* constructor constants of the source, under the path *)
+    rewrite forallb_map'. apply forallb_forall. intros a Ha. apply filter_In in Ha. destruct Ha as [Ha Hnil].
+    assert (Hnoarg : assignment_args a = []).
+    { apply Hconst; [exact Ha|]. destruct (dyn_is_nil (as_const a)); [discriminate|reflexivity]. }
+    rewrite forallb_forall in Hs1. specialize (Hs1 a Ha).
+    pose proof (prefix_assignment_ok ss (o_type (b_for dest)) (o_type (b_for source)) root (ct_args (b_ctor source)) a it Hok Hargs Elast Hnext Hs1) as Hpa.
+    unfold assignment_ok in *. apply andb_true_iff in Hpa. destruct Hpa as [Hpa _]. rewrite Hpa. simpl.
+    unfold assignment_args in *. unfold prefix_path, set_as_path, path_append. simpl. rewrite path_args_app, Hargs. simpl.
+    rewrite Hnoarg. reflexivity.
+  - (* the options of the source, under the path *)
+    rewrite (flat_map_if_filter (fun o => item_in_list (op_name o) excl) (merged_option root ren)).
+    rewrite forallb_map'. apply forallb_forall. intros o Ho. apply filter_In in Ho. destruct Ho as [Ho _].
+    rewrite forallb_forall in Hs2. specialize (Hs2 o Ho). unfold opt_ok in *. unfold merged_option. simpl.
+    rewrite forallb_map'. apply forallb_forall. intros a Ha. rewrite forallb_forall in Hs2.
+    apply (prefix_assignment_ok ss _ (o_type (b_for source)) root _ a it Hok Hargs Elast Hnext (Hs2 a Ha)).
+Qed.
+
+Lemma in_set_nth {A} i (x : A) l y : In y (set_nth i x l) -> y = x \/ In y l.
+Proof.
+  revert i. induction l as [|z r IH]; intros i H; [destruct i; contradiction|].
+  destruct i as [|j]; simpl in H.
+  - destruct H as [<-|H]; [left; reflexivity|right; right; exact H].
+  - destruct H as [<-|H]; [right; left; reflexivity|]. destruct (IH _ H) as [->|Hin]; [left; reflexivity|right; right; exact Hin].
+Qed.
+
+(* the whole rule: every destination the selector picks, in order, each seeing the earlier merges *)
+Theorem merge_into_rule_wt_proof ss s src under excl ren bs bs' :
+  (forall cur dest, consistent_with ss cur -> Forall (bWT ss) cur -> In dest cur -> sel_builder ss s dest = true ->
+                    merge_target_checked ss cur dest src under) ->
+  consistent_with ss bs -> Forall (bWT ss) bs ->
+  apply_builder_rule ss (BRMergeInto s src under excl ren) bs = Ok bs' ->
+  consistent_with ss bs' /\ Forall (bWT ss) bs'.
+Proof.
+  intros Hchk Hc Hw H. cbn [apply_builder_rule] in H. unfold merge_into_rule, map_to_selected in H.
+  revert H. generalize 0 as i. generalize (List.length bs) as todo. revert bs Hc Hw.
+  intros bs Hc Hw todo. revert bs Hc Hw. induction todo as [|t IH]; intros bs Hc Hw i H; simpl in H.
+  - inversion H; subst. split; assumption.
+  - destruct (nth_error bs i) as [b|] eqn:En; [|inversion H; subst; split; assumption].
+    destruct (sel_builder ss s b) eqn:Es; [|apply (IH _ Hc Hw (S i) H)].
+    destruct (merge_into_builder src under excl ren bs b) as [nb| | |] eqn:Em; simpl in H; try discriminate.
+    assert (Hin : In b bs) by (apply nth_error_In in En; exact En).
+    assert (Hbw : bWT ss b) by (rewrite Forall_forall in Hw; apply Hw; exact Hin).
+    destruct (merge_into_builder_wt_proof _ _ _ _ _ _ _ _ Hc Hw Hbw (Hchk bs b Hc Hw Hin Es) Em) as [Hnw Hnf].
+    apply (IH (set_nth i nb bs)) with (i := S i); [| |exact H].
+    + intros y Hy. destruct (in_set_nth _ _ _ _ Hy) as [->|Hy']; [rewrite Hnf; apply Hc; exact Hin|apply Hc; exact Hy'].
+    + apply Forall_forall. intros y Hy. destruct (in_set_nth _ _ _ _ Hy) as [->|Hy']; [exact Hnw|rewrite Forall_forall in Hw; apply Hw; exact Hy'].
+Qed.
+
+(* ---------------------------------------------------------------- option actions on options of the shape FromAST derives *)
+Lemma arg_declared_head a r : arg_declared (a :: r) a = true.
+Proof. unfold arg_declared. simpl. unfold ty_eqb_nn. rewrite seqb_refl', ty_eqb_refl. reflexivity. Qed.
+
+Lemma path_ok_go_snoc ss x p cur it :
+  path_ok_go ss cur p = true -> last_item p = Some it -> path_ok_go ss (next_type it) [x] = true -> path_ok_go ss cur (p ++ [x]) = true.
+Proof. intros Hp Hl Hx. rewrite path_ok_go_app, Hp. unfold end_type. rewrite Hl. exact Hx. Qed.
+
+Ltac shape_intro H :=
+  destruct H as (Ha & Has & Harg & He & Hcs & Hpa & (it & Hlast & Hty & Hhint)).
+
+Lemma derived_first_ok ss root o a first : derived_shape o a first -> opt_wt ss root o = true ->
+  path_ok ss root (as_path first) = true.
+Proof.
+  intros Hs Hw. shape_intro Hs. unfold opt_wt in Hw. rewrite Has in Hw. simpl in Hw. rewrite andb_true_r in Hw.
+  unfold assignment_ok in Hw. apply andb_true_iff in Hw. destruct Hw as [Hw _]. apply andb_true_iff in Hw. apply Hw.
+Qed.
+
+Lemma array_to_append_derived_wt ss root o a first os :
+  derived_shape o a first -> as_constraints first = [] -> opt_wt ss root o = true -> array_to_append_action o = Ok os ->
+  forallb (opt_wt ss root) os = true.
+Proof.
+  intros Hs Hnc Hw H. pose proof (derived_first_ok _ _ _ _ _ Hs Hw) as Hp. shape_intro Hs.
+  unfold array_to_append_action in H. rewrite Ha, Has in H.
+  destruct (a_type a) eqn:Et; try (inversion H; subst; simpl; rewrite Hw; reflexivity).
+  inversion H; subst; clear H. destruct first as [p [arg c env] m cs ncs]. unfold as_arg, as_env, as_const in *. simpl in *. subst arg env cs.
+  unfold opt_wt, assignment_ok, assignment_args. simpl. rewrite Hp, Hpa. cbn [app forallb andb]. rewrite arg_declared_head. reflexivity.
+Qed.
+
+Lemma map_to_index_derived_wt ss root o a first os :
+  derived_shape o a first -> as_constraints first = [] -> opt_wt ss root o = true -> map_to_index_action o = Ok os ->
+  forallb (opt_wt ss root) os = true.
+Proof.
+  intros Hs Hnc Hw H. pose proof (derived_first_ok _ _ _ _ _ Hs Hw) as Hp. shape_intro Hs.
+  unfold map_to_index_action in H. rewrite Ha, Has in H.
+  destruct (a_type a) as [ | | |ma mi mv| | | | | | | ] eqn:Et; try (inversion H; subst; simpl; rewrite Hw; reflexivity).
+  inversion H; subst; clear H. destruct first as [p [arg c env] m cs ncs]. unfold as_arg, as_env, as_const in *. simpl in *. subst arg env cs.
+  unfold opt_wt, assignment_ok, assignment_args, path_append. simpl.
+  assert (Hpne : p <> []) by (intros ->; discriminate).
+  rewrite path_ok_nonempty by (intros E; apply app_eq_nil in E; apply Hpne; apply E).
+  rewrite path_ok_nonempty in Hp by exact Hpne.
+  rewrite (path_ok_go_snoc ss _ p root it Hp Hlast).
+  - rewrite path_args_app, Hpa. simpl. unfold arg_declared. simpl. unfold ty_eqb_nn. rewrite !seqb_refl', !ty_eqb_refl. simpl.
+    rewrite orb_true_r. reflexivity.
+  - unfold next_type. rewrite Hhint, Hty. cbn [path_ok_go index_item pi_root pi_typehint pi_index pi_type negb andb].
+    rewrite resolve_total_nonref by reflexivity. rewrite ty_eqb_nd_refl. reflexivity.
+Qed.
+
+Lemma unfold_boolean_derived_wt ss root o a first tn fn os :
+  derived_shape o a first -> opt_wt ss root o = true -> unfold_boolean_action tn fn o = Ok os ->
+  forallb (opt_wt ss root) os = true.
+Proof.
+  intros Hs Hw H. pose proof (derived_first_ok _ _ _ _ _ Hs Hw) as Hp. shape_intro Hs.
+  destruct (unfold_boolean_spec _ _ _ _ H) as [->|(f0 & r0 & d1 & d2 & E & ->)]; [simpl; rewrite Hw; reflexivity|].
+  rewrite Has in E. inversion E; subst. unfold opt_wt, assignment_ok, assignment_args, constant_asg. simpl. rewrite Hp, Hpa. reflexivity.
+Qed.
+
+(* rename_arguments: only when the assignment carries no constraint (the constraints keep the old name) *)
+Lemma rename_arguments_derived_wt ss root o a first names :
+  derived_shape o a first -> as_constraints first = [] -> opt_wt ss root o = true ->
+  forallb (opt_wt ss root) (rename_arguments_action names o) = true.
+Proof.
+  intros Hs Hnc Hw. pose proof (derived_first_ok _ _ _ _ _ Hs Hw) as Hp. shape_intro Hs.
+  unfold rename_arguments_action. rewrite Ha, Has. destruct names as [|n [|n2 nr]]; try (simpl; rewrite Hw; reflexivity).
+  simpl. destruct first as [p [arg c env] m cs ncs]. unfold as_arg, as_env, as_const in *. simpl in *. subst arg env cs.
+  unfold rename_value_arg, as_arg. simpl. rewrite seqb_refl'. unfold opt_wt, assignment_ok, assignment_args. simpl.
+  rewrite Hp, Hpa. cbn [app forallb andb]. rewrite arg_declared_head. reflexivity.
+Qed.
+
+(* disjunction_as_options on an argument that is a disjunction *)
+Lemma disjunction_as_options_derived_wt ss root o a first da d os :
+  derived_shape o a first -> a_type a = TDisj da d -> opt_wt ss root o = true -> disjunction_as_options_action ss 0 o = Ok os ->
+  forallb (opt_wt ss root) os = true.
+Proof.
+  intros Hs Hd Hw H. pose proof (derived_first_ok _ _ _ _ _ Hs Hw) as Hp. shape_intro Hs.
+  unfold disjunction_as_options_action in H. rewrite Ha in H. simpl in H. rewrite Hd in H. inversion H; subst; clear H.
+  apply forallb_forall. intros o' Ho'. apply in_map_iff in Ho'. destruct Ho' as (br & <- & _).
+  unfold disjunction_branch_option, option_deep_copy. rewrite Ha, Has. simpl. rewrite Harg. rewrite seqb_refl'.
+  unfold opt_wt, assignment_ok, assignment_args. simpl. rewrite Hp, Hpa. cbn [app forallb andb]. rewrite arg_declared_head. reflexivity.
+Qed.
+
+(* the options FromAST derives have that shape *)
+Lemma derived_shape_of_from_ast f o : struct_field_to_option f = Ok o ->
+  exists a first, derived_shape o a first /\ a = mkArg (f_name f) (f_type f) /\ as_path first = path_from_struct_field f.
+Proof.
+  unfold struct_field_to_option, field_assignment.
+  destruct (mapM _ (scalar_constraints (f_type f))) as [cs| | |] eqn:E; simpl; try discriminate.
+  intros H. inversion H; subst; clear H.
+  exists (mkArg (f_name f) (f_type f)),
+         (mkAssignment [mkPathItem (f_name f) None (f_type f) None false] (AValue (Some (mkArg (f_name f) (f_type f))) DNil None) "direct" cs []).
+  split; [|split; reflexivity].
+  unfold derived_shape. simpl. repeat split.
+  - intros c Hc. apply mapM_ok_forall2 in E. destruct (forall2_in_r _ _ _ _ E Hc) as (tc & _ & Ec).
+    destruct (c_args tc); [discriminate|]. inversion Ec. reflexivity.
+  - eexists. repeat split.
+Qed.
+
+(* ---------------------------------------------------------------- the unrestricted WT statement fails: witnesses
+   (the same rule files are fixed cases of the correspondence: they replay on cog on every run) *)
+Definition w_str : ty := TScalar A0 KString DNil [].
+Definition w_meta : smeta := {| m_kind := "" ; m_variant := "" ; m_identifier := "" |}.
+(* alpha.Foo { tags []string ; name string(minLength 1) ; labels map[string]bool }   alpha.Bar { foo Foo ; id string } *)
+Definition w_schemas : schemas :=
+  [mkSchema "alpha" w_meta "" ty_zero
+     [("Foo", mkObject "Foo" [] (TStruct A0 [] [mkField "tags" [] (TArray A0 w_str) true;
+                                                 mkField "name" [] (TScalar A0 KString DNil [{| c_op := "minLength" ; c_args := [DInt "int64" 1] |}]) true;
+                                                 mkField "labels" [] (TMap A0 w_str (TScalar A0 KBool DNil [])) false])
+                       "alpha" "Foo");
+      ("Bar", mkObject "Bar" [] (TStruct A0 [] [mkField "foo" [] (TRef A0 "alpha" "Foo") true; mkField "id" [] w_str true]) "alpha" "Bar")]].
+Definition w_osel (by_builder : string) : yosel := mkYOSel None (Some by_builder) None.
+(* rename the argument of Foo.name, an option whose assignment carries a constraint *)
+Definition w_files_constraint : list vfile :=
+  [mkVFile "all" "alpha" [] [[YORenameArguments (w_osel "Foo.name") ["title"]]]].
+(* merge Foo into Bar under `id`, a string *)
+Definition w_files_target : list vfile :=
+  [mkVFile "all" "alpha" [[YBMergeInto "Bar" "Foo" "id" [] []]] []].
+(* index Foo.labels by key, then unfold the boolean: the options assign labels[key] without declaring key *)
+Definition w_files_shape : list vfile :=
+  [mkVFile "all" "alpha" [] [[YOMapToIndex (w_osel "Foo.labels")]; [YOUnfoldBoolean (w_osel "Foo.labels") "on" "off"]]].
+(* the same merge under `foo`, which IS a Foo, followed by array_to_append on the merged copy: fine since a8e18fa *)
+Definition w_files_merge_ok : list vfile :=
+  [mkVFile "all" "alpha" [[YBMergeInto "Bar" "Foo" "foo" [] []]] [[YOArrayToAppend (w_osel "Bar.tags")]]].
+
+Definition w_before : list builder := match from_ast w_schemas with Ok bs => bs | _ => [] end.
+
+Definition wt_witness (files : list vfile) : bool :=
+  consistent w_schemas w_before && WTs w_schemas w_before && files_wf files &&
+  match apply_to w_schemas files "go" w_before with Ok bs' => negb (WTs w_schemas bs') | _ => false end.
+
+Lemma wt_witness_constraint : wt_witness w_files_constraint = true.
+Proof. vm_compute. reflexivity. Qed.
+Lemma wt_witness_target : wt_witness w_files_target = true.
+Proof. vm_compute. reflexivity. Qed.
+Lemma wt_witness_shape : wt_witness w_files_shape = true.
+Proof. vm_compute. reflexivity. Qed.
+(* no longer a witness: the source builder Foo is untouched and everything is well-typed *)
+Lemma merge_then_append_is_fine :
+  match apply_to w_schemas w_files_merge_ok "go" w_before with
+  | Ok bs' => WTs w_schemas bs' && existsb (fun b' => existsb (builder_eqb b') w_before && seqb (b_name b') "Foo") bs'
+  | _ => false
+  end = true.
+Proof. vm_compute. reflexivity. Qed.
+
+Theorem rules_preserve_WT_refuted_proof :
+  ~ (forall ss files lang bs bs',
+       consistent ss bs = true -> WTs ss bs = true -> files_wf files = true ->
+       apply_to ss files lang bs = Ok bs' -> WTs ss bs' = true).
+Proof.
+  intros H. pose proof wt_witness_constraint as Hw. unfold wt_witness in Hw.
+  destruct (apply_to w_schemas w_files_constraint "go" w_before) as [bs'| | |] eqn:E;
+    repeat (apply andb_true_iff in Hw; destruct Hw as [Hw ?]); try discriminate.
+  specialize (H w_schemas w_files_constraint "go" w_before bs').
+  rewrite H in *; try assumption; discriminate.
 Qed.
